@@ -546,7 +546,7 @@ def NoStrat (v : View) : Prop :=
 
 /-- the runner's failure counters agree with the log -/
 def CntOK (v : View) : Prop :=
-  (∀ k, v.counts k = v.mon.classCount k) ∧ v.unknown ≤ v.mon.classCount .unknown
+  (∀ k, v.counts k = v.mon.classCount k) ∧ v.unknown = v.mon.classCount .unknown
 
 /-- the top of the loop after `n` attempts -/
 def Rel (cfg : Cfg) (n : Nat) (v : View) : Prop :=
@@ -558,12 +558,12 @@ def Rel (cfg : Cfg) (n : Nat) (v : View) : Prop :=
 def ClsA (k : EClass) (v : View) : Prop :=
   v.mon.classified = true ∧ v.mon.lastClass = some k ∧
   (∀ k', v.mon.classCount k' = if k' = k then v.counts k' + 1 else v.counts k') ∧
-  v.unknown + (if EClass.unknown = k then 1 else 0) ≤ v.mon.classCount .unknown
+  v.unknown + (if EClass.unknown = k then 1 else 0) = v.mon.classCount .unknown
 
 /-- … the runner has counted it in `per_class_counts` -/
 def ClsB (k : EClass) (v : View) : Prop :=
   v.mon.classified = true ∧ v.mon.lastClass = some k ∧ (∀ k', v.counts k' = v.mon.classCount k') ∧
-  v.unknown + (if EClass.unknown = k then 1 else 0) ≤ v.mon.classCount .unknown
+  v.unknown + (if EClass.unknown = k then 1 else 0) = v.mon.classCount .unknown
 
 /-- … and in `unknown_attempts` -/
 def ClsC (k : EClass) (v : View) : Prop :=
@@ -637,11 +637,15 @@ def PreStop (n : Nat) (v : View) : Prop :=
   v.mon.ops = n ∧ 1 ≤ n ∧ v.mon.bad = false ∧ v.flt = false ∧ v.mon.mustOp = false ∧ v.mon.done = false ∧
   v.stop = none ∧ v.sync = true ∧ v.mon.classified = true ∧ v.mon.granted = false
 
+/-- the class of the failure permits a retry (what `_handle_failure` has checked before it selects a strategy) -/
+def Permit (cfg : Cfg) (k : EClass) (v : View) : Prop :=
+  k.nonRetryable = false ∧ overClass cfg v.mon k = false ∧ (k = .unknown → C03.overUnknown cfg v.mon = false)
+
 /-- simp set that turns statements about the view of an explicit world into statements about fields -/
 syntax "c03_simp" : tactic
 macro_rules | `(tactic| c03_simp) => `(tactic|
   simp_all +zetaDelta [GrantInv, Core, NoStrat, CntOK, Rel, ClsA, ClsB, ClsC, bumpCount, view, cur_cons, clk_cons, flt_cons, hookRaise, Clock.tick,
-    isPrelude, step, classify, abortKind, abortRaise, isAttemptHook, stopOkOf, raisedBy, isOp, lastOpExn])
+    isPrelude, step, classify, abortKind, abortRaise, isAttemptHook, stopOkOf, raisedBy, isOp, lastOpExn, classStop, Permit, overClass, Mon.C03.overUnknown])
 
 macro "c03_close" : tactic => `(tactic| all_goals (
   (try subst_vars) <;> (try c03_simp) <;> (try (and_intros <;> (try simp_all [Ans.dur]) <;> omega))))
@@ -714,7 +718,7 @@ macro "c03_done" : tactic => `(tactic| all_goals (
                | (split <;> rename_i h <;>
                     first
                       | omega
-                      | (rw [← h]; omega))
+                      | (rw [← h]; first | done | omega))
                | skip)))))
 
 theorem bump_self (f : EClass → Nat) (k : EClass) : bumpCount f k k = f k + 1 := by simp [bumpCount]
@@ -733,7 +737,7 @@ theorem callClassifier_spec (cfg : Cfg) (n : Nat) (u : View) (hc : Core cfg n u)
 macro_rules | `(tactic| c03_simp) => `(tactic|
   simp_all +zetaDelta [GrantInv, Succ, Core, NoStrat, CntOK, Rel, ClsA, ClsB, ClsC, bumpCount, view, cur_cons, clk_cons,
     flt_cons, hookRaise, Clock.tick, isPrelude, step, classify, abortKind, abortRaise, isAttemptHook, stopOkOf,
-    raisedBy, isOp, lastOpExn])
+    raisedBy, isOp, lastOpExn, classStop, Permit, overClass, Mon.C03.overUnknown])
 
 theorem shouldClassifyResult_spec (cfg : Cfg) (n : Nat) (u : View) (hc : Core cfg n u) (hn : NoStrat u)
     (hk : CntOK u) (hcl : u.mon.classified = false) (hd : u.mon.done = !cfg.resultClassifier) (x : Nat) :
@@ -754,7 +758,7 @@ def pollV (cfg : Cfg) (u : View) : View :=
 macro_rules | `(tactic| c03_simp) => `(tactic|
   simp_all +zetaDelta [Ready, Slept, Decided, PreStop, plainEv, isBreakerEv, GrantInv, Strat, Gr, Refd, Stopped, isFailure, pollV, stopCond, Succ, Core, NoStrat, CntOK, Rel, ClsA, ClsB, ClsC, bumpCount, view, cur_cons,
     clk_cons, flt_cons, hookRaise, Clock.tick, isPrelude, step, classify, abortKind, abortRaise, isAttemptHook,
-    stopOkOf, raisedBy, isOp, lastOpExn])
+    stopOkOf, raisedBy, isOp, lastOpExn, classStop, Permit, overClass, Mon.C03.overUnknown])
 
 /-- `check_abort`: a poll that answers False changes nothing but `pollFalse`; True ends the run -/
 theorem checkAbort_spec (cfg : Cfg) (tl : Bool) (u : View) (hs : u.stop = none) (hb : u.mon.bad = false)
@@ -767,15 +771,6 @@ theorem checkAbort_spec (cfg : Cfg) (tl : Bool) (u : View) (hs : u.stop = none) 
   all_goals (clear he)
   c03_done
 
-
-theorem callStrategy_spec (cfg : Cfg) (n : Nat) (u : View) (k : EClass) (hc : Core cfg n u) (hn : NoStrat u)
-    (hk : ClsC k u) (hd : u.mon.done = false) (hlt : n < cfg.maxAttempts) (key : SKey) (kind : SKind)
-    (ctx : BackoffCtx) :
-    ⦃fun w => ⌜view cfg w = u⌝⦄ callStrategy key kind ctx
-    ⦃post⟨fun _ w => ⌜Strat cfg n (view cfg w) ∧ ClsC k (view cfg w)⌝, fun e w => ⌜Exc cfg e w⌝⟩⦄ := by
-  simp only [Core, NoStrat, ClsC, CntOK] at hc hn hk
-  mvcgen [callStrategy, ask]
-  c03_done
 
 theorem budgetConsume_spec (cfg : Cfg) (n : Nat) (u : View) (k : EClass) (hc : Strat cfg n u) (hk : ClsC k u) :
     ⦃fun w => ⌜view cfg w = u⌝⦄ budgetConsume cfg
@@ -816,33 +811,21 @@ theorem stopWith_spec (cfg : Cfg) (tl : Bool) (n : Nat) (u : View) (r : StopReas
   c03_done
 
 
-theorem grantRetry_spec (cfg : Cfg) (tl : Bool) (n : Nat) (u : View) (c : Classification) (hc : Core cfg n u)
-    (hn : NoStrat u) (hk : ClsC c.klass u) (hd : u.mon.done = false) (hlt : n < cfg.maxAttempts)
-    (a : Nat) (cause : Cause) (e : Option Exn) (key : SKey) (kind : SKind) (rem : Nat) :
-    ⦃fun w => ⌜view cfg w = u⌝⦄ grantRetry cfg tl c a cause e key kind rem
-    ⦃post⟨fun d w => ⌜Decided cfg n d (view cfg w)⌝, fun e w => ⌜Exc cfg e w⌝⟩⦄ := by
-  have h1 := fun u hc hn hk hd ctx => callStrategy_spec cfg n u c.klass hc hn hk hd hlt key kind ctx
-  have h2 := fun u hc hk => budgetConsume_spec cfg n u c.klass hc hk
-  have h3 := fun u hc hk hr s => emit_retry_spec cfg tl n u c.klass hc hk hr a s (some c.klass) e none
-    (some cause) (some c)
-  have h4 := fun u hp hev hcond => stopWith_spec cfg tl n u .budgetExhausted .budgetExhausted hp rfl hev hcond
-    a c.klass e cause
-  mvcgen [grantRetry, getRS, modifyRS, h1, h2, h3, h4]
-  all_goals (clear h1 h2 h3 h4)
-  c03_chain
-
 theorem handleFailure2_spec (cfg : Cfg) (tl : Bool) (n : Nat) (u : View) (c : Classification)
     (hc : Core cfg n u) (hn : NoStrat u) (hk : ClsC c.klass u) (hd : u.mon.done = false)
-    (cause : Cause) (e : Option Exn) :
+    (hp : Permit cfg c.klass u) (cause : Cause) (e : Option Exn) :
     ⦃fun w => ⌜view cfg w = u⌝⦄ handleFailure2 cfg tl c n cause e
     ⦃post⟨fun d w => ⌜Decided cfg n d (view cfg w)⌝, fun e w => ⌜Exc cfg e w⌝⟩⦄ := by
   have he := fun v hok hb hg hm ev hev r =>
     emit_v cfg tl v hok hb hg hm ev hev n 0 (some c.klass) e (some r) (some cause) none
   have h1 := fun v hok hb hg hs hm key => stratRecordFailure_v cfg v hok hb hg hs hm key c.klass
-  have h2 := fun u hc hn hk hd hlt key kind rem =>
-    grantRetry_spec cfg tl n u c hc hn hk hd hlt n cause e key kind rem
-  mvcgen [handleFailure2, elapsed, modifyRS, stopWith, setStop, he, h1, h2]
-  all_goals (clear he h1 h2)
+  have h2 := fun u hc hk => budgetConsume_spec cfg n u c.klass hc hk
+  have h3 := fun u hc hk hr s => emit_retry_spec cfg tl n u c.klass hc hk hr n s (some c.klass) e none
+    (some cause) (some c)
+  simp only [Permit] at hp
+  mvcgen [handleFailure2, elapsed, modifyRS, stopWith, setStop, grantRetry, getRS, callStrategy, ask,
+    he, h1, h2, h3]
+  all_goals (clear he h1 h2 h3)
   c03_chain
   c03_done
 
@@ -860,19 +843,38 @@ theorem overClass_of (cfg : Cfg) (m : St) (f : EClass → Nat) (k : EClass) (h :
   cases hm : cfg.perClass k <;> simp [hm] at h ⊢
   omega
 
+theorem overUnknown_false_of (cfg : Cfg) (m : St) (x : Nat) (h : Retry.overUnknown cfg x = false)
+    (hx : x = m.classCount .unknown) : C03.overUnknown cfg m = false := by
+  unfold Retry.overUnknown at h
+  unfold C03.overUnknown
+  cases hm : cfg.maxUnknown <;> simp [hm] at h ⊢
+  omega
+
+theorem overClass_false_of (cfg : Cfg) (m : St) (f : EClass → Nat) (k : EClass)
+    (h : overPerClass cfg f k = false) (hx : f k = m.classCount k) : overClass cfg m k = false := by
+  unfold overPerClass at h
+  unfold overClass
+  cases hm : cfg.perClass k <;> simp [hm] at h ⊢
+  omega
+
 theorem handleUnknown_spec (cfg : Cfg) (tl : Bool) (n : Nat) (u : View) (c : Classification)
     (hc : Core cfg n u) (hn : NoStrat u) (hk : ClsB c.klass u) (hu : c.klass = .unknown)
-    (hd : u.mon.done = false) (cause : Cause) (e : Option Exn) :
+    (hd : u.mon.done = false) (hoc : overClass cfg u.mon c.klass = false) (cause : Cause) (e : Option Exn) :
     ⦃fun w => ⌜view cfg w = u⌝⦄ handleUnknown cfg tl c n cause e
     ⦃post⟨fun d w => ⌜Decided cfg n d (view cfg w)⌝, fun e w => ⌜Exc cfg e w⌝⟩⦄ := by
   have h1 := fun u hp hev hcond => stopWith_spec cfg tl n u .maxUnknownAttempts .maxUnknownAttemptsExceeded hp rfl
     hev hcond n c.klass e cause
-  have h2 := fun u hc hn hk hd => handleFailure2_spec cfg tl n u c hc hn hk hd cause e
+  have h2 := fun u hc hn hk hd hp => handleFailure2_spec cfg tl n u c hc hn hk hd hp cause e
   mvcgen [handleUnknown, getRS, modifyRS, h1, h2]
   all_goals (clear h1 h2)
   c03_chain
   c03_done
-  exact overUnknown_mono _ _ _ (by assumption) hk.2.2.2
+  all_goals first
+    | (have h2 := hk.2.2.2; exact overUnknown_mono _ _ _ (by assumption) (by omega))
+    | (have h2 := hk.2.2.2; exact overUnknown_false_of _ _ _ (by simpa using ‹¬ _›) (by omega))
+    | (have h2 := hk.2.2.2; exact overUnknown_false_of _ _ _ (by assumption) (by omega))
+    | rfl
+    | skip
 
 theorem handleFailure1_spec (cfg : Cfg) (tl : Bool) (n : Nat) (u : View) (c : Classification)
     (hc : Core cfg n u) (hn : NoStrat u) (hk : ClsB c.klass u) (hd : u.mon.done = false)
@@ -880,13 +882,20 @@ theorem handleFailure1_spec (cfg : Cfg) (tl : Bool) (n : Nat) (u : View) (c : Cl
     ⦃fun w => ⌜view cfg w = u⌝⦄ handleFailure1 cfg tl c n cause e
     ⦃post⟨fun d w => ⌜Decided cfg n d (view cfg w)⌝, fun e w => ⌜Exc cfg e w⌝⟩⦄ := by
   have h1 := fun u r ev hp hf hev hcond => stopWith_spec cfg tl n u r ev hp hf hev hcond n c.klass e cause
-  have h2 := fun u hc hn hk hd => handleFailure2_spec cfg tl n u c hc hn hk hd cause e
-  have h3 := fun u hc hn hk hu hd => handleUnknown_spec cfg tl n u c hc hn hk hu hd cause e
+  have h2 := fun u hc hn hk hd hp => handleFailure2_spec cfg tl n u c hc hn hk hd hp cause e
+  have h3 := fun u hc hn hk hu hd hoc => handleUnknown_spec cfg tl n u c hc hn hk hu hd hoc cause e
   mvcgen [handleFailure1, getRS, h1, h2, h3]
   all_goals (clear h1 h2 h3)
   c03_chain
   c03_done
-  exact overClass_of _ _ _ _ (by assumption) (hk.2.2.1 _)
+  all_goals first
+    | exact overClass_of _ _ _ _ (by assumption) (hk.2.2.1 _)
+    | exact overClass_false_of _ _ _ _ (by assumption) (hk.2.2.1 _)
+    | exact overClass_false_of _ _ _ _ (by simpa using ‹¬ _›) (hk.2.2.1 _)
+    | (have h2 := hk.2.2.2
+       rw [if_neg (fun h => (‹¬ c.klass = EClass.unknown›) h.symm)] at h2
+       simpa using h2)
+    | skip
 
 
 theorem handleFailure_spec (cfg : Cfg) (tl : Bool) (n : Nat) (u : View) (c : Classification)
@@ -899,9 +908,10 @@ theorem handleFailure_spec (cfg : Cfg) (tl : Bool) (n : Nat) (u : View) (c : Cla
   all_goals (clear h1)
   c03_chain
   c03_done
-  have h := hk.2.2.2
-  rw [hk.2.2.1 EClass.unknown] at h
-  exact h
+  all_goals (
+    have h := hk.2.2.2
+    rw [hk.2.2.1 EClass.unknown] at h
+    exact h)
 
 theorem handleException_spec (cfg : Cfg) (tl : Bool) (n : Nat) (u : View) (hc : Core cfg n u) (hn : NoStrat u)
     (hk : CntOK u) (hcl : u.mon.classified = false) (hd : u.mon.done = false) (e : Exn) :
@@ -995,7 +1005,7 @@ macro_rules | `(tactic| c03_simp) => `(tactic|
   simp_all +zetaDelta [Fin, Decided2, Ready, Slept, Decided, PreStop, plainEv, isBreakerEv, GrantInv, Strat, Gr, Refd,
     Stopped, isFailure, pollV, stopCond, Succ, Core, NoStrat, CntOK, Rel, ClsA, ClsB, ClsC, bumpCount, view,
     cur_cons, clk_cons, flt_cons, hookRaise, Clock.tick, isPrelude, step, classify, abortKind, abortRaise,
-    isAttemptHook, stopOkOf, raisedBy, isOp, lastOpExn])
+    isAttemptHook, stopOkOf, raisedBy, isOp, lastOpExn, classStop, Permit, overClass, Mon.C03.overUnknown])
 
 macro_rules | `(tactic| c03_phase) => `(tactic|
   simp_all +zetaDelta [Fin, Decided2, Ready, Slept, Decided, GrantInv, PreStop, plainEv, isBreakerEv, Strat, Gr, Refd,
@@ -1071,27 +1081,32 @@ theorem exc_lib_exhausted (cfg : Cfg) {w : World} {n : Nat} {r : StopReason} (f 
   have hc := stopCond_of_view cfg w r hS.2.2.2.2.2.2.1 hS.2.2.2.2.2.2.2.1
   simp only [Stopped, GrantInv, view_mon] at hS
   intro _
-  refine ⟨hS.2.2.1, hS.2.2.2.2.1, fun f' h => ?_, fun _ _ _ _ h => by simp at h, fun hg => ⟨hS.2.2.2.2.2.2.2.2.2.1 hg, ?_⟩⟩
+  refine ⟨⟨hS.2.2.1, hS.2.2.2.2.1, fun f' h => ?_, fun _ _ _ _ h => by simp at h,
+    fun hg => ⟨hS.2.2.2.2.2.2.2.2.2.1 hg, ?_⟩⟩, fun h => by simp at h⟩
   · cases h; exact Or.inr (hf ▸ hc)
   · rcases hS.2.2.2.2.2.2.2.2.2.2 hg with h | h
     · exact Or.inl h
     · exact Or.inr (Or.inl h)
 
 /-- the run was aborted -/
-theorem exc_lib_abort (cfg : Cfg) {w : World} {n : Nat} {r : StopReason}
-    (hS : Stopped cfg n r (view cfg w)) : Exc cfg .libAbort w := by
+theorem exc_lib_abort (cfg : Cfg) {w : World} {n : Nat}
+    (hS : Stopped cfg n .aborted (view cfg w)) : Exc cfg .libAbort w := by
+  have hc := stopCond_of_view cfg w .aborted hS.2.2.2.2.2.2.1 hS.2.2.2.2.2.2.2.1
+  have hst : w.rs.lastStop = some .aborted := hS.2.2.2.2.2.2.1
   simp only [Stopped, view_mon] at hS
   exact exc_made cfg (by simp) hS.2.2.1 (fun _ => hS.2.2.2.2.1) hS.2.2.2.2.2.2.2.2.2.1 (Or.inr (Or.inl rfl))
+    (fun _ => ⟨by simpa [stopCond] using hc, Or.inr hst⟩)
 
 /-- `call()` re-raises the operation's exception: the failure was classified and a stop condition holds -/
 theorem exc_reraise (cfg : Cfg) {w : World} {n : Nat} {r : StopReason} {e : Exn}
     (hS : Stopped cfg n r (view cfg w)) (hfail : isFailure r = true) (hrb : raisedBy isOp w.trace e = true)
-    (hex : e.isExhausted = false) : Exc cfg e w := by
+    (hex : e.isExhausted = false) (hna : e.isAbort = false) : Exc cfg e w := by
   have hc := stopCond_of_view cfg w r hS.2.2.2.2.2.2.1 hS.2.2.2.2.2.2.2.1
   simp only [Stopped, GrantInv, view_mon] at hS
   intro _
-  refine ⟨hS.2.2.1, hS.2.2.2.2.1, fun f h => ?_, fun _ _ _ _ _ => Or.inr (Or.inr ⟨hrb, hS.2.2.2.2.2.2.2.2.1, anyStop_of cfg _ _ r hc hfail⟩),
-    fun hg => ⟨hS.2.2.2.2.2.2.2.2.2.1 hg, ?_⟩⟩
+  refine ⟨⟨hS.2.2.1, hS.2.2.2.2.1, fun f h => ?_,
+    fun _ _ _ _ _ => Or.inr (Or.inr ⟨hrb, hS.2.2.2.2.2.2.2.2.1, anyStop_of cfg _ _ r hc hfail⟩),
+    fun hg => ⟨hS.2.2.2.2.2.2.2.2.2.1 hg, ?_⟩⟩, fun h => by simp [hna] at h⟩
   · subst h; simp at hex
   · rcases hS.2.2.2.2.2.2.2.2.2.2 hg with h | h
     · exact Or.inl h
@@ -1099,7 +1114,7 @@ theorem exc_reraise (cfg : Cfg) {w : World} {n : Nat} {r : StopReason} {e : Exn}
 
 /-- what follows the attempt's outcome in call mode, exception path -/
 theorem deliverCall_exn_spec (cfg : Cfg) (n : Nat) (u : View) (o : AOutcome) (rs : RState) (e : Exn)
-    (fb : ExhaustedFields) (hF : Fin cfg n o u) (hex : e.isExhausted = false) :
+    (fb : ExhaustedFields) (hF : Fin cfg n o u) (hex : e.isExhausted = false) (hna : e.isAbort = false) :
     ⦃fun w => ⌜view cfg w = u⌝⦄ deliverCall (determineAction o rs n false) (some e) fb
     ⦃post⟨fun r w => ⌜r = none ∧ Slept cfg n (view cfg w)⌝,
           fun e' w => ⌜raisedBy isOp w.trace e = true → Exc cfg e' w⌝⟩⦄ := by
@@ -1109,10 +1124,13 @@ theorem deliverCall_exn_spec (cfg : Cfg) (n : Nat) (u : View) (o : AOutcome) (rs
   all_goals (subst_vars)
   case retry => exact ⟨trivial, hF⟩
   case raise =>
-    split at hF <;> first | contradiction | exact fun hrb => exc_reraise cfg hF.1 (by simp_all) hrb hex
+    split at hF <;> first | contradiction | exact fun hrb => exc_reraise cfg hF.1 (by simp_all) hrb hex hna
   case scheduled =>
     split at hF <;> first | contradiction | exact fun _ => exc_lib_exhausted cfg _ hF.1 (by simp [hF.2.1])
-  case aborted => split at hF <;> first | contradiction | exact fun _ => exc_lib_abort cfg hF.1
+  case aborted =>
+    split at hF <;> first
+      | contradiction
+      | (obtain ⟨hS, _, _, _, hr⟩ := hF; subst hr; exact fun _ => exc_lib_abort cfg hS)
 
 
 /-- what follows the attempt's outcome in call mode, result path -/
@@ -1129,7 +1147,10 @@ theorem deliverCall_res_spec (cfg : Cfg) (n : Nat) (u : View) (o : AOutcome) (rs
     split at hF <;> first | contradiction | exact exc_lib_exhausted cfg _ hF.1 (by simp [hF.2.1])
   case scheduled =>
     split at hF <;> first | contradiction | exact exc_lib_exhausted cfg _ hF.1 (by simp [hF.2.1])
-  case aborted => split at hF <;> first | contradiction | exact exc_lib_abort cfg hF.1
+  case aborted =>
+    split at hF <;> first
+      | contradiction
+      | (obtain ⟨hS, _, _, _, hr⟩ := hF; subst hr; exact exc_lib_abort cfg hS)
 
 
 /-- a poll that answers False before any strategy was asked leaves the view alone -/
@@ -1208,7 +1229,7 @@ theorem decided2_of (cfg : Cfg) (n : Nat) (d : Decision) (v v' : View) (h : Deci
 
 theorem callExceptionPath_core (cfg : Cfg) (n : Nat) (u : View) (e : Exn) (hc : Core cfg n u) (hn : NoStrat u)
     (hk : CntOK u) (hcl : u.mon.classified = false) (hd : u.mon.done = false)
-    (hex : e.isExhausted = false) :
+    (hex : e.isExhausted = false) (hna : e.isAbort = false) :
     ⦃fun w => ⌜view cfg w = u⌝⦄ callExceptionPath cfg n e
     ⦃post⟨fun r w => ⌜(r = none → Rel cfg n (view cfg w)) ∧ (r ≠ none → Succ n (view cfg w))⌝,
           fun e' w => ⌜raisedBy isOp w.trace e = true → Exc cfg e' w⌝⟩⦄ := by
@@ -1216,7 +1237,7 @@ theorem callExceptionPath_core (cfg : Cfg) (n : Nat) (u : View) (e : Exn) (hc : 
   have h2 := fun u hc hn hk hcl hd => handleException_spec cfg false n u hc hn hk hcl hd e
   have h3 := fun u d hd cls => failureOutcome_spec cfg false n u d hd cls (some e) none (some .exception)
   have h4 := fun v hok hb hg o => callAttemptEndFromOutcome_v cfg v hok hb hg n o
-  have h5 := fun u o rs hF => deliverCall_exn_spec cfg n u o rs e default hF hex
+  have h5 := fun u o rs hF => deliverCall_exn_spec cfg n u o rs e default hF hex hna
   mvcgen [callExceptionPath, getRS, modifyAS, h1, h2, h3, h4, h5]
   all_goals (clear h1 h2 h3 h4 h5)
   c03_chain
@@ -1236,10 +1257,12 @@ theorem not_exception_of_kise (e : Exn) (h : e.isKiSe = true) : e.isException = 
 theorem exc_propagate (cfg : Cfg) {w : World} {e : Exn} (hb : (view cfg w).mon.bad = false)
     (hm : (view cfg w).mon.mustOp = false) (hgr : (view cfg w).mon.granted = false)
     (hgo : e.isException = false ∨ e.isAbort = true ∨ e.isExhausted = true)
+    (hab : e.isAbort = true → (view cfg w).mon.sawAbort = true ∧
+      ((view cfg w).stop = none ∨ (view cfg w).stop = some .aborted))
     (hrb : e.isException = true → raisedBy isOp w.trace e = true) : Exc cfg e w := by
-  simp only [view_mon] at hb hm hgr
+  simp only [view_mon] at hb hm hgr hab
   intro _
-  refine ⟨hb, hm, fun f h => Or.inl ?_, fun _ _ h1 h2 h3 => ?_, fun h => by simp [hgr] at h⟩
+  refine ⟨⟨hb, hm, fun f h => Or.inl ?_, fun _ _ h1 h2 h3 => ?_, fun h => by simp [hgr] at h⟩, hab⟩
   · subst h
     exact raisedBy_any_of _ _ _ (hrb rfl)
   · rcases hgo with h | h | h <;> simp_all
@@ -1253,13 +1276,13 @@ theorem callOpHandler_core (cfg : Cfg) (n : Nat) (u : View) (e : Exn) (hc : Core
           fun e' w => ⌜(e.isException = true → raisedBy isOp w.trace e = true) → Exc cfg e' w⌝⟩⦄ := by
   have h1 := fun v hok hb hg => handleAbortAttemptEnd_v cfg v hok hb hg n e
   have h2 := fun u hsa hok hb hg hm => emitAbortedOnce_spec cfg false u hsa hok hb hg hm n
-  have h3 := fun u hc hn hk hcl hd hex => callExceptionPath_core cfg n u e hc hn hk hcl hd hex
+  have h3 := fun u hc hn hk hcl hd hex hna => callExceptionPath_core cfg n u e hc hn hk hcl hd hex hna
   mvcgen [callOpHandler, h1, h2, h3]
   all_goals (clear h1 h2 h3)
   c03_chain
   all_goals (try subst_vars)
   all_goals first
-    | (refine exc_propagate cfg ?_ ?_ ?_ ?_ (by assumption) <;>
+    | (refine exc_propagate cfg ?_ ?_ ?_ ?_ ?_ (by assumption) <;>
         first
           | (simp_all [not_exception_of_kise]; done)
           | (c03_phase; done)
@@ -1335,9 +1358,11 @@ theorem callAttempt_spec (cfg : Cfg) (n : Nat) (u : View) (hr : Rel cfg n u) (hl
 theorem exc_zero (cfg : Cfg) {w : World} {e : Exn} (hops : (cur cfg w.trace).ops = 0)
     (hb : (cur cfg w.trace).bad = false) (hm : (cur cfg w.trace).mustOp = false)
     (hgr : (cur cfg w.trace).granted = false)
-    (hstop : ∀ f, e = .libExhausted f → f.stop = .maxAttemptsGlobal ∧ cfg.maxAttempts = 0) : Exc cfg e w := by
+    (hstop : ∀ f, e = .libExhausted f → f.stop = .maxAttemptsGlobal ∧ cfg.maxAttempts = 0)
+    (hna : e.isAbort = false) : Exc cfg e w := by
   intro _
-  refine ⟨hb, hm, fun f h => Or.inr ?_, fun h => by omega, fun h => by simp [hgr] at h⟩
+  refine ⟨⟨hb, hm, fun f h => Or.inr ?_, fun h => by omega, fun h => by simp [hgr] at h⟩,
+    fun h => by simp [hna] at h⟩
   obtain ⟨h1, h2⟩ := hstop f h
   simp [h1, stopCond, h2]
 
@@ -1351,7 +1376,7 @@ theorem raiseExhaustedCall_spec (cfg : Cfg) (u : View) (hr : Rel cfg 0 u) (h0 : 
   all_goals (clear he)
   c03_chain
   all_goals first
-    | (refine exc_zero cfg ?_ ?_ ?_ ?_ ?_ <;> c03_simp; done)
+    | (refine exc_zero cfg ?_ ?_ ?_ ?_ ?_ (by first | rfl | simp) <;> c03_simp; done)
     | (exfalso; c03_simp; done)
     | skip
 
@@ -1456,14 +1481,6 @@ theorem outOK_of_ab (cfg : Cfg) {w : World} {o : Outcome} (hA : Ab cfg (view cfg
   rw [hs] at h; cases h
   simp [stopCond, hA.2.2.2.2.2.1]
 
-/-- `emit` fails only with something that is not an `Exception` -/
-theorem emit_nonexc (cfg : Cfg) (tl : Bool) (ev : Event) (a s : Nat) (k : Option EClass) (e : Option Exn)
-    (st : Option StopReason) (c : Option Cause) (cl : Option Classification) :
-    ⦃fun _ => ⌜True⌝⦄ emit cfg tl ev a s k e st c cl
-    ⦃post⟨fun _ _ => ⌜True⌝, fun e' _ => ⌜e'.isException = false⌝⟩⦄ := by
-  mvcgen [emit, metricHook, askMetric, askLog, ask, swallowException, recordTimeline]
-  all_goals simp_all
-
 /-- conjunction of the exceptional posts of two triples for the same program -/
 theorem triple_and_exc {α : Type} {x : M α} {P : World → Prop} {Q : α → World → Prop}
     {E1 E2 : Exn → World → Prop}
@@ -1476,14 +1493,14 @@ theorem triple_and_exc {α : Type} {x : M α} {P : World → Prop} {Q : α → W
   have a2 := adequacy h2 w trivial
   split <;> simp_all
 
-theorem not_abort_of_not_exception (e : Exn) (h : e.isException = false) : e.isAbort = false := by
-  cases e <;> simp_all [Exn.isException, Exn.isAbort]
+theorem not_abort_of_not_exception (e : Exn) (h : e.isException = false) : e.isAbort = false :=
+  isAbort_of_not_exception e h
 
 macro_rules | `(tactic| c03_simp) => `(tactic|
   simp_all +zetaDelta [Ab, Fin, Decided2, Ready, Slept, Decided, PreStop, plainEv, isBreakerEv, GrantInv, Strat, Gr, Refd,
     Stopped, isFailure, pollV, stopCond, Succ, Core, NoStrat, CntOK, Rel, ClsA, ClsB, ClsC, bumpCount, view,
     cur_cons, clk_cons, flt_cons, hookRaise, Clock.tick, isPrelude, step, classify, abortKind, abortRaise,
-    isAttemptHook, stopOkOf, raisedBy, isOp, lastOpExn])
+    isAttemptHook, stopOkOf, raisedBy, isOp, lastOpExn, classStop, Permit, overClass, Mon.C03.overUnknown])
 
 /-- how `check_abort` can fail, seen from `execute()`'s handlers -/
 def XAb (cfg : Cfg) (e : Exn) (w : World) : Prop :=
@@ -1581,5 +1598,1292 @@ theorem deliverExecute_spec (cfg : Cfg) (tl : Bool) (n : Nat) (u : View) (o : AO
            simp only [Stopped] at hS
            simp only [PreAb]
            simp_all))
+
+/-- the rest of the exception path of `execute()`: back off, report, deliver -/
+theorem execExceptionPath3_spec (cfg : Cfg) (tl : Bool) (n : Nat) (u : View) (e : Exn) (d : Decision)
+    (hd : Decided2 cfg n d u) :
+    ⦃fun w => ⌜view cfg w = u⌝⦄ execExceptionPath3 cfg tl n e d ⦃xPostG cfg n⦄ := by
+  have h3 := fun u hd cls => failureOutcome_spec cfg tl n u d hd cls (some e) none (some .exception)
+  have h4 := fun v hok hb hg o => callAttemptEndFromOutcome_v cfg v hok hb hg n o
+  have h5 := fun u o rs hF => deliverExecute_spec cfg tl n u o rs false hF
+  mvcgen [execExceptionPath3, getRS, modifyAS, h3, h4, h5]
+  all_goals (clear h3 h4 h5)
+  c03_chain
+  all_goals first
+    | exact (fin_basic _ _ _ _ (by assumption)).1
+    | exact (fin_basic _ _ _ _ (by assumption)).2.1
+    | exact (fin_basic _ _ _ _ (by assumption)).2.2.1
+    | skip
+
+
+/-- `try: check_abort() except AbortRetryError` -/
+theorem checkAbortCaught_spec (cfg : Cfg) (tl : Bool) (u : View) (hs : u.stop = none) (hb : u.mon.bad = false)
+    (hg : GrantInv cfg u.mon) (hf : u.flt = false) (a : Nat) :
+    ⦃fun w => ⌜view cfg w = u⌝⦄ checkAbortCaught cfg tl a
+    ⦃post⟨fun b w => ⌜(b = false → view cfg w = pollV cfg u) ∧
+                      (b = true → flt w.trace = true ∨ Ab cfg (view cfg w))⌝,
+          fun e w => ⌜flt w.trace = true ∨ (e.isAbort = false ∧ e.isException = false ∧ Exc cfg e w)⌝⟩⦄ := by
+  have h1 := fun u hs hb hg hf => checkAbort_x cfg tl u hs hb hg hf a
+  mvcgen [checkAbortCaught, abortToTrue, h1]
+  all_goals (clear h1)
+  all_goals (try subst_vars)
+  all_goals (try simp only [restore_dummy] at *)
+  all_goals first
+    | assumption
+    | (exact ⟨by assumption, fun h => by simp at h⟩)
+    | (rename_i hx; simp only [XAb] at hx; rcases hx with h | ⟨h1, _, _⟩ | ⟨h1, h2⟩ <;> simp_all; done)
+
+
+/-- once an attempt hook has raised, nothing is claimed any more -/
+theorem flt_grows (w w' : World) (h : Ext loopK w w') (hf : flt w.trace = true) : flt w'.trace = true := by
+  obtain ⟨δ, ht⟩ := h.grows
+  rw [ht]
+  simp only [flt, attemptHookFault, List.any_append] at hf ⊢
+  simp [hf]
+
+theorem xpost_of_flt {x : M (Option Outcome)} (cfg : Cfg) (n : Nat)
+    (hx : ∀ w0, ⦃fun w => ⌜Ext loopK w0 w⌝⦄ x ⦃extPost loopK w0⦄) :
+    ⦃fun w => ⌜flt w.trace = true⌝⦄ x ⦃xPostG cfg n⦄ := by
+  apply triple_of_run
+  intro w hw
+  have := adequacy (hx w) w (Ext.refl loopK w)
+  split <;> simp_all
+  · rename_i r w' _
+    have hf := flt_grows _ _ this hw
+    cases r <;> simp [OutOK, hf]
+  · rename_i e w' _
+    have hf := flt_grows _ _ this hw
+    simp [Exc, hf]
+
+/-- a spec for views satisfying `H`, and the remark above, give a spec for "`H` or an attempt hook raised" -/
+theorem guard_spec {x : M (Option Outcome)} (cfg : Cfg) (n : Nat) (H : View → Prop)
+    (h1 : ∀ u, H u → ⦃fun w => ⌜view cfg w = u⌝⦄ x ⦃xPostG cfg n⦄)
+    (hx : ∀ w0, ⦃fun w => ⌜Ext loopK w0 w⌝⦄ x ⦃extPost loopK w0⦄) :
+    ⦃fun w => ⌜flt w.trace = true ∨ H (view cfg w)⌝⦄ x ⦃xPostG cfg n⦄ := by
+  apply triple_of_run
+  intro w hw
+  rcases hw with hw | hw
+  · exact adequacy (xpost_of_flt cfg n hx) w hw
+  · exact adequacy (h1 _ hw) w rfl
+
+
+theorem execAbortExit_g (cfg : Cfg) (tl : Bool) (n a : Nat) (e : Exn) :
+    ⦃fun w => ⌜flt w.trace = true ∨ PreAb cfg (view cfg w)⌝⦄ execAbortExit cfg tl a e ⦃xPostG cfg n⦄ :=
+  guard_spec cfg n (PreAb cfg) (fun u hp => execAbortExit_spec cfg tl u hp a e _)
+    (fun w0 => execAbortExit_ext w0 cfg tl a e)
+
+theorem preAb_of_ab (cfg : Cfg) (v : View) (h : Ab cfg v) : PreAb cfg v := by
+  simp only [Ab, PreAb] at *
+  simp_all
+
+theorem exc_of_flt (cfg : Cfg) (e : Exn) (w : World) (h : flt w.trace = true) : Exc cfg e w := by
+  intro hf; simp [h] at hf
+
+theorem exc_of_caught (cfg : Cfg) (e : Exn) (w : World)
+    (h : flt w.trace = true ∨ e.isAbort = false ∧ e.isException = false ∧ Exc cfg e w) : Exc cfg e w := by
+  rcases h with h | ⟨_, _, h⟩
+  · exact exc_of_flt cfg e w h
+  · exact h
+
+theorem execExceptionPath2_spec (cfg : Cfg) (tl : Bool) (n : Nat) (u : View) (e : Exn) (hc : Core cfg n u)
+    (hn : NoStrat u) (hk : CntOK u) (hcl : u.mon.classified = false) (hd : u.mon.done = false) :
+    ⦃fun w => ⌜view cfg w = u⌝⦄ execExceptionPath2 cfg tl n e ⦃xPostG cfg n⦄ := by
+  have h1 := fun u hc hn hk hcl hd => handleException_spec cfg tl n u hc hn hk hcl hd e
+  have h2 := fun u d hd => execExceptionPath3_spec cfg tl n u e d hd
+  have h3 := fun u hs hb hg hf => checkAbortCaught_spec cfg tl u hs hb hg hf n
+  have h4 := execAbortExit_g cfg tl n n e
+  mvcgen [execExceptionPath2, getRS, modifyAS, h1, h2, h3, h4]
+  all_goals (clear h1 h2 h3 h4)
+  c03_chain
+  all_goals first
+    | (exact exc_of_caught cfg _ _ (by assumption))
+    | (refine decided2_of cfg n _ _ _ (by assumption) ?_ ?_ <;> simp_all +zetaDelta; done)
+    | (rename_i h; rcases h.2 rfl with h | h
+       · exact Or.inl h
+       · exact Or.inr (preAb_of_ab cfg _ h))
+    | (cases ‹Decision› <;> c03_phase; done)
+    | skip
+
+
+theorem execExceptionPath_spec (cfg : Cfg) (tl : Bool) (n : Nat) (u : View) (e : Exn) (hc : Core cfg n u)
+    (hn : NoStrat u) (hk : CntOK u) (hcl : u.mon.classified = false) (hd : u.mon.done = false) :
+    ⦃fun w => ⌜view cfg w = u⌝⦄ execExceptionPath cfg tl n e ⦃xPostG cfg n⦄ := by
+  have h2 := fun u hc hn hk hcl hd => execExceptionPath2_spec cfg tl n u e hc hn hk hcl hd
+  have h3 := fun u hs hb hg hf => checkAbortCaught_spec cfg tl u hs hb hg hf n
+  have h4 := execAbortExit_g cfg tl n n e
+  mvcgen [execExceptionPath, modifyAS, h2, h3, h4]
+  all_goals (clear h2 h3 h4)
+  c03_chain
+  all_goals first
+    | (exact exc_of_caught cfg _ _ (by assumption))
+    | (rename_i h; rcases h.2 rfl with h | h
+       · exact Or.inl h
+       · exact Or.inr (preAb_of_ab cfg _ h))
+    | skip
+
+
+/-- the operation failed in attempt `n` -/
+def OpFail (cfg : Cfg) (n : Nat) (e : Exn) (v : View) : Prop :=
+  Core cfg n v ∧ NoStrat v ∧ CntOK v ∧ v.mon.classified = false ∧ v.mon.done = false ∧
+  (e.isAbort = true → v.mon.sawAbort = true)
+
+/-- the `except` ladder of `execute()` when the operation itself raised -/
+theorem execHandler_core (cfg : Cfg) (tl : Bool) (n : Nat) (u : View) (e : Exn) (ho : OpFail cfg n e u) :
+    ⦃fun w => ⌜view cfg w = u⌝⦄ execHandler cfg tl n e
+    ⦃post⟨fun r w => ⌜match r with
+                      | none => flt w.trace = false → Slept cfg n (view cfg w)
+                      | some o => OutOK cfg o w⌝,
+          fun e' w => ⌜(e.isException = true → raisedBy isOp w.trace e = true) → Exc cfg e' w⌝⟩⦄ := by
+  have h1 := execAbortExit_g cfg tl n n e
+  have h2 := fun u hc hn hk hcl hd => execExceptionPath_spec cfg tl n u e hc hn hk hcl hd
+  simp only [OpFail] at ho
+  mvcgen [execHandler, h1, h2]
+  all_goals (clear h1 h2)
+  c03_chain
+  all_goals (try subst_vars)
+  all_goals first
+    | assumption
+    | (intro _; assumption)
+    | (refine Or.inr ?_; simp only [PreAb]; c03_phase; done)
+    | (refine exc_propagate cfg ?_ ?_ ?_ ?_ ?_ (by assumption) <;>
+        first
+          | (simp_all [not_exception_of_kise]; done)
+          | (c03_phase; done)
+          | (left; rfl))
+    | skip
+
+
+/-- how the part of an `execute()` attempt up to and including `func()` can fail -/
+def HPre (cfg : Cfg) (n : Nat) (e : Exn) (w : World) : Prop :=
+  flt w.trace = true ∨ (e.isAbort = false ∧ e.isException = false ∧ Exc cfg e w) ∨
+  (e = .libAbort ∧ Ab cfg (view cfg w)) ∨
+  (OpFail cfg n e (view cfg w) ∧ (e.isException = true → raisedBy isOp w.trace e = true))
+
+theorem execHandler_rethrow (cfg : Cfg) (tl : Bool) (n : Nat) (e : Exn) (h1 : e.isAbort = false)
+    (h2 : e.isException = false) : execHandler cfg tl n e = throw e := by
+  unfold execHandler
+  simp only [h1, h2, Bool.false_eq_true, if_false]
+  repeat' split
+  all_goals rfl
+
+theorem execHandler_g (cfg : Cfg) (tl : Bool) (n : Nat) (e : Exn) :
+    ⦃fun w => ⌜HPre cfg n e w⌝⦄ execHandler cfg tl n e ⦃xPostG cfg n⦄ := by
+  apply triple_of_run
+  intro w hw
+  rcases hw with hw | ⟨h1, h2, hE⟩ | ⟨h1, hA⟩ | ⟨hO, hrb⟩
+  · exact adequacy (xpost_of_flt cfg n (fun w0 => execHandler_ext w0 cfg tl n e)) w hw
+  · rw [execHandler_rethrow cfg tl n e h1 h2]
+    exact hE
+  · subst h1
+    have : execHandler cfg tl n Exn.libAbort = execAbortExit cfg tl n Exn.libAbort := by
+      unfold execHandler; simp [Exn.isAbort]
+    rw [this]
+    exact adequacy (execAbortExit_spec cfg tl _ (preAb_of_ab cfg _ hA) n _ _) w rfl
+  · exact adequacy (triple_and_inv (execHandler_core cfg tl n _ e hO)
+      (inv_of_ext (fun w => e.isException = true → raisedBy isOp w.trace e = true)
+        (fun w0 => execHandler_ext w0 cfg tl n e) (fun w w' h hi he => rbOp_ext e w w' h (hi he)))) w ⟨rfl, hrb⟩
+
+
+/-- attempt-hook leaves, seen from `execute()`: a failure sets the fault flag -/
+theorem hook_spec_flt {α : Type} {x : M α} (cfg : Cfg)
+    (hx : ∀ w0, ⦃fun w => ⌜FootQ hookR w0 w⌝⦄ x ⦃fqPost hookR w0⦄) (v : View) (hok : v.stopOk = true) :
+    ⦃fun w => ⌜view cfg w = v⌝⦄ x ⦃post⟨fun _ w => ⌜view cfg w = v⌝, fun _ w => ⌜flt w.trace = true⌝⟩⦄ := by
+  apply triple_of_run
+  intro w hw
+  have := adequacy (hx w) w (FootQ.refl hookR w)
+  subst hw
+  split <;> simp_all
+  · exact view_fq cfg false _ _ (this.mono hookR_loopR) hok (by simp)
+  · obtain ⟨δ, et, _, r, d, δ', hd, hr, _⟩ := this.trace
+    rw [et, hd]
+    simp only [List.cons_append, flt_cons, hookRaise]
+    cases r <;> simp_all [hookR, isAttemptHook]
+
+theorem callAttemptStart_x (cfg : Cfg) (v : View) (hok : v.stopOk = true) (a : Nat) :
+    ⦃fun w => ⌜view cfg w = v⌝⦄ callAttemptStart cfg a
+    ⦃post⟨fun _ w => ⌜view cfg w = v⌝, fun _ w => ⌜flt w.trace = true⌝⟩⦄ :=
+  hook_spec_flt cfg (fun w0 => callAttemptStart_fq hookR w0 cfg a (fun _ => rfl)) v hok
+
+@[simp] theorem view_as_attempts (cfg : Cfg) (s : World) (x : AState) (y : Nat) :
+    view cfg { s with as := x, attempts := y } = view cfg s := rfl
+
+/-- the `try:` body of `execute()` up to and including `func()` -/
+theorem execPre_spec (cfg : Cfg) (tl : Bool) (n : Nat) (u : View) (hr : Rel cfg n u) (hlt : n < cfg.maxAttempts) :
+    ⦃fun w => ⌜view cfg w = u⌝⦄ execPre cfg tl (n + 1)
+    ⦃post⟨fun _ w => ⌜Core cfg (n + 1) (view cfg w) ∧ NoStrat (view cfg w) ∧ CntOK (view cfg w) ∧
+                      (view cfg w).mon.classified = false ∧
+                      (view cfg w).mon.done = !cfg.resultClassifier⌝,
+          fun e w => ⌜HPre cfg (n + 1) e w⌝⟩⦄ := by
+  have h1 := fun u hs hb hg hf => checkAbort_x cfg tl u hs hb hg hf n
+  have h2 := fun v hok => callAttemptStart_x cfg v hok (n + 1)
+  have h3 := fun u hr => invokeOp_spec cfg n u hr hlt (n + 1)
+  mvcgen [execPre, modifyAS, h1, h2, h3]
+  all_goals (clear h1 h2 h3)
+  c03_chain
+  all_goals first
+    | (exact Or.inl (by assumption))
+    | (rename_i hx; simp only [XAb] at hx; rcases hx with h | h | h
+       · exact Or.inl h
+       · exact Or.inr (Or.inl h)
+       · exact Or.inr (Or.inr (Or.inl h)))
+    | (refine Or.inr (Or.inr (Or.inr ⟨?_, by assumption⟩)); simp only [OpFail]; simp_all; done)
+    | (have hp := rel_pollV cfg n _ hr
+       first
+         | (simp_all +zetaDelta; done)
+         | (simp only [Rel] at hp; simp_all; done))
+
+
+/-- from the verdict at an exceptional exit: an abort can be turned into an ABORTED outcome -/
+theorem preAb_of_exc (cfg : Cfg) (e : Exn) (w : World) (h : Exc cfg e w) (hf : flt w.trace = false)
+    (ha : e.isAbort = true) : PreAb cfg (view cfg w) := by
+  obtain ⟨hc, hab⟩ := h hf
+  obtain ⟨hsa, hst⟩ := hab ha
+  refine ⟨hsa, ?_, hc.bad, fun hg hm => (hc.grant hg).1 hm, hc.must, hf⟩
+  rcases hst with h | h <;> simp [view, stopOkOf, h, stopCond, hsa]
+
+/-- result-based failure in execute mode -/
+theorem execResultFailure_spec (cfg : Cfg) (tl : Bool) (n : Nat) (u : View) (x : Nat) (c : Classification)
+    (hc : Core cfg n u) (hn : NoStrat u) (hk : ClsA c.klass u) (hd : u.mon.done = false) :
+    ⦃fun w => ⌜view cfg w = u⌝⦄ execResultFailure cfg tl n x c ⦃xPostG cfg n⦄ := by
+  have h1 := fun u hs hb hg => checkAbort_spec cfg tl u hs hb hg n
+  have h2 := fun u hc hn hk hd => handleFailure_spec cfg tl n u c hc hn hk hd .result none (some x)
+  have h3 := fun u d hd => failureOutcome_spec cfg tl n u d hd (some c) none (some x) (some .result)
+  have h4 := fun v hok hb hg o => callAttemptEndFromOutcome_v cfg v hok hb hg n o
+  have h5 := fun u o rs hF => deliverExecute_spec cfg tl n u o rs true hF
+  mvcgen [execResultFailure, getRS, modifyAS, h1, h2, h3, h4, h5]
+  all_goals (clear h1 h2 h3 h4 h5)
+  c03_chain
+  all_goals first
+    | exact (fin_basic _ _ _ _ (by assumption)).1
+    | exact (fin_basic _ _ _ _ (by assumption)).2.1
+    | exact (fin_basic _ _ _ _ (by assumption)).2.2.1
+    | (refine decided2_of cfg n _ _ _ (by assumption) ?_ ?_ <;> simp_all +zetaDelta; done)
+    | (cases ‹Decision› <;> c03_phase; done)
+    | skip
+  all_goals (try (simp only [NoStrat] at hn; simp +zetaDelta only [view_as]; rw [‹view cfg _ = pollV cfg _›, pollV_noStrat cfg _ hn.1 hn.2.2.2.1]; exact hk))
+
+
+/-- the rest of the `try:` body of `execute()`, after `func()` returned -/
+theorem execResultPath_spec (cfg : Cfg) (tl : Bool) (n : Nat) (u : View) (x : Nat) (hc : Core cfg n u)
+    (hn : NoStrat u) (hk : CntOK u) (hcl : u.mon.classified = false) (hd : u.mon.done = !cfg.resultClassifier) :
+    ⦃fun w => ⌜view cfg w = u⌝⦄ execResultPath cfg tl n x ⦃xPostG cfg n⦄ := by
+  have h1 := fun u hc hn hk hcl hd => shouldClassifyResult_spec cfg n u hc hn hk hcl hd x
+  have h2 := fun v hok hb hg hs hm => handleSuccessAttemptEnd_v cfg tl v hok hb hg hs hm n x
+  have h3 := fun u c hc hn hk hd => execResultFailure_spec cfg tl n u x c hc hn hk hd
+  have h4 := fun u ok v n ns => buildOutcome_spec cfg u ok v n ns
+  mvcgen [execResultPath, h1, h2, h3, h4]
+  all_goals (clear h1 h2 h3 h4)
+  c03_chain
+  all_goals (
+    obtain ⟨hv, _, hst⟩ := ‹view cfg _ = view cfg _ ∧ _ ∧ _›
+    refine outOK_of_succ cfg (n := n) ?_ (by simpa using hst)
+    rw [hv]; simp_all)
+
+/-- the `except` ladder of `execute()` once `func()` has returned: an `AbortRetryError` still ends the run as
+    ABORTED, everything else is re-raised -/
+theorem execReturnedHandler_g (cfg : Cfg) (tl : Bool) (n : Nat) (e : Exn) :
+    ⦃fun w => ⌜Exc cfg e w⌝⦄ execReturnedHandler cfg tl n e ⦃xPostG cfg n⦄ := by
+  apply triple_of_run
+  intro w hE
+  by_cases hf : flt w.trace = true
+  · exact adequacy (xpost_of_flt cfg n (fun w0 => execReturnedHandler_ext w0 cfg tl n e)) w hf
+  · have hf' : flt w.trace = false := by simpa using hf
+    by_cases ha : e.isAbort = true
+    · have : execReturnedHandler cfg tl n e = execAbortExit cfg tl n e := by
+        unfold execReturnedHandler; simp [ha]
+      rw [this]
+      exact adequacy (execAbortExit_spec cfg tl _ (preAb_of_exc cfg e w hE hf' ha) n e _) w rfl
+    · have : execReturnedHandler cfg tl n e = throw e := by
+        unfold execReturnedHandler; simp [ha]
+      rw [this]
+      exact hE
+
+
+/-- one iteration of the loop of `execute()` when no attempt hook has raised so far -/
+theorem execAttempt_core (cfg : Cfg) (tl : Bool) (n : Nat) (u : View) (hr : Rel cfg n u)
+    (hlt : n < cfg.maxAttempts) :
+    ⦃fun w => ⌜view cfg w = u⌝⦄ execAttempt cfg tl (n + 1) ⦃xPostG cfg (n + 1)⦄ := by
+  have h1 := fun u hr => execPre_spec cfg tl n u hr hlt
+  have h2 := fun e => execHandler_g cfg tl (n + 1) e
+  have h3 := fun u x hc hn hk hcl hd => execResultPath_spec cfg tl (n + 1) u x hc hn hk hcl hd
+  have h4 := fun e => execReturnedHandler_g cfg tl (n + 1) e
+  mvcgen [execAttempt, h1, h2, h3, h4]
+  all_goals (clear h1 h2 h3 h4)
+  c03_chain
+
+
+/-- … and in general -/
+theorem execAttempt_g (cfg : Cfg) (tl : Bool) (n : Nat) (hlt : n < cfg.maxAttempts) :
+    ⦃fun w => ⌜flt w.trace = true ∨ Rel cfg n (view cfg w)⌝⦄ execAttempt cfg tl (n + 1)
+    ⦃xPostG cfg (n + 1)⦄ :=
+  guard_spec cfg (n + 1) (Rel cfg n) (fun u hr => execAttempt_core cfg tl n u hr hlt)
+    (fun w0 => execAttempt_ext w0 cfg tl (n + 1))
+
+abbrev outPost (cfg : Cfg) : PostCond Outcome (.except Exn (.arg World .pure)) :=
+  post⟨fun o w => ⌜OutOK cfg o w⌝, fun e w => ⌜Exc cfg e w⌝⟩
+
+theorem outpost_of_flt {x : M Outcome} (cfg : Cfg)
+    (hx : ∀ w0, ⦃fun w => ⌜Ext loopK w0 w⌝⦄ x ⦃extPost loopK w0⦄) :
+    ⦃fun w => ⌜flt w.trace = true⌝⦄ x ⦃outPost cfg⦄ := by
+  apply triple_of_run
+  intro w hw
+  have := adequacy (hx w) w (Ext.refl loopK w)
+  split <;> simp_all
+  · rename_i r w' _
+    simp [OutOK, flt_grows _ _ this hw]
+  · rename_i e w' _
+    simp [Exc, flt_grows _ _ this hw]
+
+theorem outOK_zero (cfg : Cfg) {w : World} {o : Outcome} (hops : (cur cfg w.trace).ops = 0)
+    (hb : (cur cfg w.trace).bad = false) (hm : (cur cfg w.trace).mustOp = false)
+    (hgr : (cur cfg w.trace).granted = false) (hs : o.stop = some .maxAttemptsGlobal)
+    (h0 : cfg.maxAttempts = 0) : OutOK cfg o w := by
+  intro _
+  refine ⟨hb, hm, fun r h => ?_, fun h => by omega, fun h => by simp [hgr] at h⟩
+  rw [hs] at h; cases h
+  simp [stopCond, h0]
+
+/-- `build_exhausted_outcome` when no attempt was made (`max_attempts = 0`) -/
+theorem buildExhaustedOutcome_spec (cfg : Cfg) (tl : Bool) (u : View) (hr : Rel cfg 0 u)
+    (h0 : cfg.maxAttempts = 0) :
+    ⦃fun w => ⌜view cfg w = u⌝⦄ buildExhaustedOutcome cfg tl ⦃outPost cfg⦄ := by
+  have he := fun v hok hb hg hm k ex cs => emit_v cfg tl v hok hb hg hm .maxAttemptsExceeded
+    (by simp [plainEv, isBreakerEv]) cfg.maxAttempts 0 k ex (some .maxAttemptsGlobal) cs none
+  have h2 := fun u ok v n ns => buildOutcome_spec cfg u ok v n ns
+  simp only [Rel, CntOK, GrantInv] at hr
+  mvcgen [buildExhaustedOutcome, emitMaxAttemptsExceeded, getRS, setStop, modifyRS, he, h2]
+  all_goals (clear he h2)
+  c03_chain
+  all_goals (refine outOK_zero cfg ?_ ?_ ?_ ?_ ?_ h0 <;> c03_simp)
+
+
+/-- the loop of `_run_sync_execute` -/
+theorem execLoop_spec (cfg : Cfg) (tl : Bool) : ∀ (fuel n : Nat), n + fuel = cfg.maxAttempts →
+    ⦃fun w => ⌜flt w.trace = true ∨ Rel cfg n (view cfg w)⌝⦄ execLoop cfg tl fuel (n + 1) ⦃outPost cfg⦄ := by
+  intro fuel
+  induction fuel with
+  | zero =>
+    intro n hn
+    apply triple_of_run
+    intro w hw
+    rcases hw with hw | hw
+    · exact adequacy (outpost_of_flt cfg (fun w0 => execLoop_ext w0 cfg tl 0 (n + 1))) w hw
+    · have h0 : n = 0 := by
+        have := hw
+        simp only [Rel] at this
+        omega
+      subst h0
+      have : execLoop cfg tl 0 (0 + 1) = buildExhaustedOutcome cfg tl := rfl
+      rw [this]
+      exact adequacy (buildExhaustedOutcome_spec cfg tl _ hw (by omega)) w rfl
+  | succ f ih =>
+    intro n hn
+    have h1 := execAttempt_g cfg tl n (by omega)
+    have h2 := ih (n + 1) (by omega)
+    mvcgen [execLoop, h1, h2]
+    all_goals (clear h1 h2)
+    all_goals (try assumption)
+    all_goals (
+      rename_i s h
+      by_cases hf : flt s.trace = true
+      · exact Or.inl hf
+      · exact Or.inr (rel_of_slept cfg _ _ (h (by simpa using hf))))
+
+
+/-- `Retry.execute` -/
+theorem runExecute_spec (cfg : Cfg) :
+    ⦃fun w => ⌜cur cfg w.trace = {} ∧ clk w.trace = {} ∧ flt w.trace = false⌝⦄ runExecute cfg
+    ⦃outPost cfg⦄ := by
+  have h1 := initState_spec cfg
+  have h2 := execLoop_spec cfg cfg.timeline cfg.maxAttempts 0 (by omega)
+  mvcgen [runExecute, h1, h2]
+  all_goals (first | assumption | exact Or.inr (by assumption))
+
+open Redress.Policy
+
+/-! ### the policy wrappers: what happens before and after the retry loop -/
+
+/-- the verdict for a run that raises (`Exc` without the bookkeeping about aborts) -/
+def ExcV (cfg : Cfg) (e : Exn) (w : World) : Prop :=
+  flt w.trace = false → ExcCore cfg e (cur cfg w.trace) (clk w.trace).el w.trace
+
+theorem excV_of_exc (cfg : Cfg) (e : Exn) (w : World) (h : Exc cfg e w) : ExcV cfg e w :=
+  fun hf => (h hf).1
+
+/-- the verdict for a run that returns a value -/
+def RetV (cfg : Cfg) (w : World) : Prop :=
+  flt w.trace = false →
+    (cur cfg w.trace).bad = false ∧ (cur cfg w.trace).mustOp = false ∧
+    (1 ≤ (cur cfg w.trace).ops → (cur cfg w.trace).done = true) ∧ (cur cfg w.trace).granted = false
+
+theorem retV_of_retOK (cfg : Cfg) (w : World) (h : RetOK cfg w) : RetV cfg w := by
+  intro hf
+  obtain ⟨n, hS⟩ := h hf
+  simp only [Succ, view_mon] at hS
+  exact ⟨hS.2.2.1, hS.2.2.2.2.1, fun _ => hS.2.2.2.2.2.1, hS.2.2.2.2.2.2.2.2⟩
+
+/-- requests made by the policy wrappers outside the retry loop -/
+def polR : Req → Bool
+  | .breakerAllow | .breakerSuccess | .breakerFailure _ | .breakerCancel => true
+  | .metric ev .. => isBreakerEv ev
+  | .log ev .. => isBreakerEv ev
+  | _ => false
+
+theorem step_pol (cfg : Cfg) (s : St) (x : Req × Ans) (el : Nat) (h : polR x.1 = true) : step cfg s x el = s := by
+  obtain ⟨r, a⟩ := x
+  cases r with
+  | metric ev _ _ _ =>
+    cases ev <;> simp_all [polR, step, abortKind, abortRaise, isBreakerEv] <;> (cases a <;> simp)
+  | _ => simp_all [polR, step, abortKind, abortRaise] <;> (cases a <;> simp)
+
+theorem polR_not_op (r : Req) (h : polR r = true) : isOp r = false := by
+  cases r <;> simp_all [polR, isOp]
+
+theorem polR_not_hook (r : Req) (h : polR r = true) : isAttemptHook r = false := by
+  cases r <;> simp_all [polR, isAttemptHook]
+
+theorem polR_prelude_or (r : Req) (h : polR r = true) :
+    isPrelude r = true ∨ r = .breakerSuccess ∨ (∃ k, r = .breakerFailure k) ∨ r = .breakerCancel := by
+  cases r <;> simp_all [polR, isPrelude]
+
+/-- exchanges of the wrappers (whatever the answers): the monitor and the fault flag do not move, the loop's
+    clock does not go back, nothing that was raised is forgotten -/
+theorem pol_append (cfg : Cfg) (δ t : List (Req × Ans)) (h : ∀ x ∈ δ, polR x.1 = true) :
+    cur cfg (δ ++ t) = cur cfg t ∧ flt (δ ++ t) = flt t ∧ (clk t).el ≤ (clk (δ ++ t)).el := by
+  induction δ with
+  | nil => simp
+  | cons x δ ih =>
+    have hx := h x (by simp)
+    have := ih (fun y hy => h y (by simp [hy]))
+    refine ⟨?_, ?_, ?_⟩
+    · simp only [List.cons_append, cur_cons, this.1]
+      exact step_pol cfg _ x _ hx
+    · obtain ⟨r, a⟩ := x
+      rw [List.cons_append, flt_cons, this.2.1]
+      cases a <;> simp [hookRaise, polR_not_hook r hx]
+    · simp only [List.cons_append, clk_cons, Clock.tick]
+      split
+      · exact this.2.2
+      · exact Nat.le_trans this.2.2 (Nat.le_add_right _ _)
+
+theorem raisedBy_mono (p : Req → Bool) (δ t : List (Req × Ans)) (e : Exn) (h : raisedBy p t e = true) :
+    raisedBy p (δ ++ t) e = true := by
+  rw [raisedBy_append, h]; simp
+
+theorem anyStop_mono (cfg : Cfg) (m : St) {el el' : Nat} (h : el ≤ el') (ha : anyStop cfg m el = true) :
+    anyStop cfg m el' = true := by
+  simp only [anyStop, List.any_eq_true] at ha ⊢
+  obtain ⟨r, hr, hc⟩ := ha
+  exact ⟨r, hr, stopCond_mono cfg m h r hc⟩
+
+/-- the verdict survives what the wrappers do after the loop (same exception) -/
+theorem excCore_grow (cfg : Cfg) (e : Exn) (m : St) {el el' : Nat} (t δ : List (Req × Ans))
+    (h : ExcCore cfg e m el t) (hel : el ≤ el') : ExcCore cfg e m el' (δ ++ t) := by
+  refine ⟨h.bad, h.must, fun f hf => ?_, fun h1 h2 h3 h4 h5 => ?_, fun hg => ⟨(h.grant hg).1, ?_⟩⟩
+  · rcases h.stop f hf with h | h
+    · exact Or.inl (raisedBy_mono _ _ _ _ h)
+    · exact Or.inr (stopCond_mono cfg m hel _ h)
+  · rcases h.give h1 h2 h3 h4 h5 with h | h | ⟨h, h', h''⟩
+    · exact Or.inl (raisedBy_mono _ _ _ _ h)
+    · exact Or.inr (Or.inl h)
+    · exact Or.inr (Or.inr ⟨raisedBy_mono _ _ _ _ h, h', anyStop_mono cfg m hel h''⟩)
+  · rcases (h.grant hg).2 with h | h | h
+    · exact Or.inl h
+    · exact Or.inr (Or.inl h)
+    · refine Or.inr (Or.inr fun f hf => ?_)
+      rcases h f hf with h | h
+      · exact Or.inl (raisedBy_mono _ _ _ _ h)
+      · exact Or.inr h
+
+
+/-- what any exception raised by a callback of the wrappers needs from the state it was raised in -/
+def Bv (cfg : Cfg) (w : World) : Prop :=
+  flt w.trace = false →
+    (cur cfg w.trace).bad = false ∧ (cur cfg w.trace).mustOp = false ∧ GrantInv cfg (cur cfg w.trace)
+
+theorem bv_of_retV (cfg : Cfg) (w : World) (h : RetV cfg w) : Bv cfg w := by
+  intro hf
+  obtain ⟨h1, h2, _, h4⟩ := h hf
+  exact ⟨h1, h2, fun hg => by simp [h4] at hg⟩
+
+theorem bv_of_excV (cfg : Cfg) (e : Exn) (w : World) (h : ExcV cfg e w) : Bv cfg w := by
+  intro hf
+  have := h hf
+  exact ⟨this.bad, this.must, fun hg hm => (this.grant hg).1 hm⟩
+
+/-- a callback of the wrappers (or the classifier, asked again for the breaker) raised `e` -/
+theorem excV_of_raised (cfg : Cfg) {w' : World} {e : Exn} {r : Req} {d : Nat} {t : List (Req × Ans)}
+    (ht : w'.trace = (r, Ans.raise e d) :: t) (hnop : isOp r = false)
+    (hb : (cur cfg w'.trace).bad = false) (hm : (cur cfg w'.trace).mustOp = false)
+    (hg : GrantInv cfg (cur cfg w'.trace)) : ExcV cfg e w' := by
+  intro _
+  have hrb : raisedBy nonOp w'.trace e = true := by
+    rw [ht]; exact raisedBy_head _ _ _ _ _ (by simp [nonOp, hnop])
+  exact ⟨hb, hm, fun f _ => Or.inl (raisedBy_any_of _ _ _ hrb), fun _ _ _ _ _ => Or.inl hrb,
+    fun h => ⟨hg h, Or.inr (Or.inr fun f _ => Or.inl (raisedBy_any_of _ _ _ hrb))⟩⟩
+
+/-- leaves of the wrappers: predicates that survive their exchanges are preserved; a failure is a callback
+    raising -/
+theorem pol_spec {α : Type} {x : M α} (cfg : Cfg) (R : Req → Bool) (hR : ∀ r, R r = true → polR r = true)
+    (hx : ∀ w0, ⦃fun w => ⌜FootQ R w0 w⌝⦄ x ⦃fqPost R w0⦄) (I : World → Prop)
+    (hI : ∀ w w' δ, w'.trace = δ ++ w.trace → (∀ y ∈ δ, R y.1 = true) → w'.rs = w.rs → I w → I w')
+    (hB : ∀ w, I w → Bv cfg w) :
+    ⦃fun w => ⌜I w⌝⦄ x ⦃post⟨fun _ w => ⌜I w⌝, fun e w => ⌜ExcV cfg e w⌝⟩⦄ := by
+  apply triple_of_run
+  intro w hw
+  have := adequacy (hx w) w (FootQ.refl R w)
+  split
+  · rename_i a w' heq
+    rw [heq] at this
+    have this : FootQ R w w' := this
+    obtain ⟨δ, et, q, _⟩ := this.trace
+    exact hI _ _ δ et (fun y hy => (q y hy).1) this.rs hw
+  · rename_i e w' heq
+    rw [heq] at this
+    have this : FootE R e w w' := this
+    obtain ⟨δ, et, _, r, d, δ', hd, hr, q⟩ := this.trace
+    have hI' := hI w w' δ et (by
+      intro y hy
+      rw [hd] at hy
+      rcases List.mem_cons.mp hy with rfl | hy
+      · exact hr
+      · exact (q y hy).1) this.rs hw
+    show ExcV cfg e w'
+    intro hf
+    obtain ⟨h1, h2, h3⟩ := hB _ hI' hf
+    exact excV_of_raised cfg (by rw [et, hd]; rfl) (polR_not_op r (hR r hr)) h1 h2 h3 hf
+
+/-- `RetV`, `ExcV e`, … survive the wrappers' exchanges -/
+theorem retV_grow (cfg : Cfg) (w w' : World) (δ : List (Req × Ans)) (ht : w'.trace = δ ++ w.trace)
+    (hd : ∀ y ∈ δ, polR y.1 = true) (h : RetV cfg w) : RetV cfg w' := by
+  have := pol_append cfg δ w.trace hd
+  intro hf
+  rw [ht, this.2.1] at hf
+  rw [ht, this.1]
+  exact h hf
+
+theorem excV_grow (cfg : Cfg) (e : Exn) (w w' : World) (δ : List (Req × Ans)) (ht : w'.trace = δ ++ w.trace)
+    (hd : ∀ y ∈ δ, polR y.1 = true) (h : ExcV cfg e w) : ExcV cfg e w' := by
+  have := pol_append cfg δ w.trace hd
+  intro hf
+  rw [ht, this.2.1] at hf
+  rw [ht, this.1]
+  exact excCore_grow cfg e _ _ _ (h hf) this.2.2
+
+theorem outOK_grow (cfg : Cfg) (o : Outcome) (w w' : World) (δ : List (Req × Ans))
+    (ht : w'.trace = δ ++ w.trace) (hd : ∀ y ∈ δ, polR y.1 = true) (h : OutOK cfg o w) : OutOK cfg o w' := by
+  have := pol_append cfg δ w.trace hd
+  intro hf
+  rw [ht, this.2.1] at hf
+  rw [ht, this.1]
+  have h' := h hf
+  exact ⟨h'.bad, h'.must, fun r hr => stopCond_mono cfg _ this.2.2 r (h'.stop r hr), h'.give, h'.grant⟩
+
+
+/-- how a call ends, as far as the verdict is concerned -/
+inductive Rz
+  | ret
+  | exn (e : Exn)
+  | out (o : Outcome)
+
+/-- the verdict, by the way the call ends -/
+def Inv (cfg : Cfg) (z : Rz) (w : World) : Prop :=
+  match z with
+  | .ret => RetV cfg w
+  | .exn e => ExcV cfg e w
+  | .out o => OutOK cfg o w
+
+theorem inv_grow (cfg : Cfg) (z : Rz) (w w' : World) (δ : List (Req × Ans)) (ht : w'.trace = δ ++ w.trace)
+    (hd : ∀ y ∈ δ, polR y.1 = true) (h : Inv cfg z w) : Inv cfg z w' := by
+  cases z with
+  | ret => exact retV_grow cfg w w' δ ht hd h
+  | exn e => exact excV_grow cfg e w w' δ ht hd h
+  | out o => exact outOK_grow cfg o w w' δ ht hd h
+
+theorem bv_of_inv (cfg : Cfg) (z : Rz) (w : World) (h : Inv cfg z w) : Bv cfg w := by
+  cases z with
+  | ret => exact bv_of_retV cfg w h
+  | exn e => exact bv_of_excV cfg e w h
+  | out o =>
+    intro hf
+    have := h hf
+    exact ⟨this.bad, this.must, fun hg hm => (this.grant hg).1 hm⟩
+
+theorem isCircuit_eq (ev : Event) : ev.isCircuit = isBreakerEv ev := by
+  cases ev <;> rfl
+
+theorem polR_metric (ev : Event) (h : ev.isCircuit = true) (t : Tags) : polR (.metric ev 0 0 t) = true := by
+  simpa [polR, isCircuit_eq] using h
+
+theorem polR_log (ev : Event) (h : ev.isCircuit = true) (t : Tags) : polR (.log ev 0 0 t none) = true := by
+  simpa [polR, isCircuit_eq] using h
+
+abbrev invPost (cfg : Cfg) (z : Rz) : PostCond α (.except Exn (.arg World .pure)) :=
+  post⟨fun _ w => ⌜Inv cfg z w⌝, fun e w => ⌜Inv cfg (.exn e) w⌝⟩
+
+section polLeaves
+variable (cfg : Cfg) (z : Rz)
+
+theorem inv_spec {α : Type} {x : M α} (hx : ∀ w0, ⦃fun w => ⌜FootQ polR w0 w⌝⦄ x ⦃fqPost polR w0⦄) :
+    ⦃fun w => ⌜Inv cfg z w⌝⦄ x ⦃invPost cfg z⦄ :=
+  pol_spec cfg polR (fun _ h => h) hx (Inv cfg z)
+    (fun w w' δ ht hd _ h => inv_grow cfg z w w' δ ht hd h) (bv_of_inv cfg z)
+
+theorem recordSuccess_p : ⦃fun w => ⌜Inv cfg z w⌝⦄ Policy.recordSuccess cfg ⦃invPost cfg z⦄ :=
+  inv_spec cfg z (fun w0 => recordSuccess_fq polR w0 polR_metric polR_log cfg rfl)
+
+theorem recordCancel_p : ⦃fun w => ⌜Inv cfg z w⌝⦄ Policy.recordCancel cfg ⦃invPost cfg z⦄ :=
+  inv_spec cfg z (fun w0 => recordCancel_fq polR w0 cfg rfl)
+
+theorem recordFailure_p (k : EClass) : ⦃fun w => ⌜Inv cfg z w⌝⦄ Policy.recordFailure cfg k ⦃invPost cfg z⦄ :=
+  inv_spec cfg z (fun w0 => recordFailure_fq polR w0 polR_metric polR_log cfg k (fun _ => rfl))
+
+theorem ensureSettled_p : ⦃fun w => ⌜Inv cfg z w⌝⦄ ensureSettled cfg ⦃invPost cfg z⦄ :=
+  inv_spec cfg z (fun w0 => ensureSettled_fq polR w0 cfg rfl)
+
+theorem handleExhaustedCall_p (e : Exn) :
+    ⦃fun w => ⌜Inv cfg z w⌝⦄ handleExhaustedCall cfg e ⦃invPost cfg z⦄ :=
+  inv_spec cfg z (fun w0 => handleExhaustedCall_fq polR w0 polR_metric polR_log cfg e (fun _ => rfl))
+
+theorem policyOutcome_p (ok : Bool) (value : Option Nat) (stop : Option StopReason) (attempts : Nat)
+    (lc : Option EClass) (le : Option String) (cause : Option Cause) :
+    ⦃fun w => ⌜Inv cfg z w⌝⦄ policyOutcome ok value stop attempts lc le cause ⦃invPost cfg z⦄ :=
+  inv_spec cfg z (fun w0 => policyOutcome_fq polR w0 ok value stop attempts lc le cause)
+
+end polLeaves
+
+
+theorem overClass_sawAbort (cfg : Cfg) (m : St) (b : Bool) :
+    overClass cfg { m with sawAbort := b } = overClass cfg m := by
+  funext k; simp [overClass]
+
+theorem overUnknown_sawAbort (cfg : Cfg) (m : St) (b : Bool) :
+    C03.overUnknown cfg { m with sawAbort := b } = C03.overUnknown cfg m := by
+  simp [C03.overUnknown]
+
+theorem anyStop_sawAbort (cfg : Cfg) (m : St) (b : Bool) (el : Nat) :
+    anyStop cfg { m with sawAbort := b } el = anyStop cfg m el := by
+  simp [anyStop, stopCond, overClass_sawAbort, overUnknown_sawAbort]
+
+/-- `Policy.call` asks the classifier once more, for the breaker: the verdict about the exception that is
+    being re-raised is not affected -/
+theorem excCore_classifyStep (cfg : Cfg) (e : Exn) (m : St) (el el' el'' : Nat) (t : List (Req × Ans))
+    (r : String) (a : Ans) (h : ExcCore cfg e m el t) (hex : e.isExhausted = false) (hel : el ≤ el') :
+    ExcCore cfg e (step cfg m (.classify r, a) el'') el' ((.classify r, a) :: t) := by
+  have hne : ∀ f, e ≠ .libExhausted f := fun f hf => by subst hf; simp at hex
+  have hg := excCore_grow cfg e m t [(Req.classify r, a)] h hel
+  have key : ∀ m' : St, m'.bad = m.bad → m'.mustOp = m.mustOp → m'.ops = m.ops → m'.done = m.done →
+      m'.sawOther = m.sawOther → m'.granted = m.granted → m'.retryEv = m.retryEv → m'.slept = m.slept →
+      m'.decision = m.decision →
+      (m.classified = true → m'.classified = true ∧ anyStop cfg m' el' = anyStop cfg m el') →
+      ExcCore cfg e m' el' ((.classify r, a) :: t) := by
+    intro m' h1 h2 h3 h4 h5 h6 h7 h8 h9 h10
+    refine ⟨h1 ▸ hg.bad, h2 ▸ hg.must, fun f hf => absurd hf (hne f), fun a1 a2 a3 a4 a5 => ?_, fun a1 => ?_⟩
+    · rcases hg.give (h3 ▸ a1) (h4 ▸ a2) a3 a4 a5 with g | g | ⟨g1, g2, g3⟩
+      · exact Or.inl g
+      · exact Or.inr (Or.inl ⟨g.1, h5 ▸ g.2⟩)
+      · exact Or.inr (Or.inr ⟨g1, (h10 g2).1, (h10 g2).2 ▸ g3⟩)
+    · have := hg.grant (h6 ▸ a1)
+      rw [h7, h8, h9]
+      exact this
+  cases a with
+  | klass c d =>
+    simp only [step, abortRaise, Bool.or_false]
+    by_cases hc : m.classified = true
+    · have hcl : classify { m with sawAbort := m.sawAbort } c.klass = { m with sawAbort := m.sawAbort } := by
+        simp [classify, hc]
+      rw [hcl]
+      apply key <;> simp
+    · have hc' : m.classified = false := by simpa using hc
+      apply key <;> simp [classify, hc']
+  | _ =>
+    simp only [step, abortRaise, abortKind, Bool.and_true]
+    apply key <;> simp [anyStop_sawAbort]
+
+
+theorem classify_step_fields (cfg : Cfg) (m : St) (r : String) (a : Ans) (el : Nat) :
+    (step cfg m (.classify r, a) el).bad = m.bad ∧ (step cfg m (.classify r, a) el).mustOp = m.mustOp ∧
+    (step cfg m (.classify r, a) el).granted = m.granted ∧ (step cfg m (.classify r, a) el).retryEv = m.retryEv := by
+  cases a <;> simp [step, classify, abortRaise] <;> split <;> simp
+
+theorem flt_classify (r : String) (a : Ans) (t : List (Req × Ans)) : flt ((Req.classify r, a) :: t) = flt t := by
+  rw [flt_cons]; cases a <;> simp [hookRaise, isAttemptHook]
+
+theorem clk_classify_le (r : String) (a : Ans) (t : List (Req × Ans)) :
+    (clk t).el ≤ (clk ((Req.classify r, a) :: t)).el := by
+  simp [Clock.tick, isPrelude]
+
+theorem inv_classify_keep (cfg : Cfg) (e0 : Exn) (w w' : World) (r : String) (a : Ans)
+    (ht : w'.trace = (Req.classify r, a) :: w.trace) (hex : e0.isExhausted = false)
+    (h : Inv cfg (.exn e0) w) : Inv cfg (.exn e0) w' := by
+  simp only [Inv, ExcV] at h ⊢
+  rw [ht, flt_classify]
+  intro hf
+  exact excCore_classifyStep cfg e0 _ _ _ _ _ r a (h hf) hex (clk_classify_le r a w.trace)
+
+theorem inv_classify_raise (cfg : Cfg) (e0 e1 : Exn) (w w' : World) (r : String) (d : Nat)
+    (ht : w'.trace = (Req.classify r, Ans.raise e1 d) :: w.trace) (h : Inv cfg (.exn e0) w) :
+    Inv cfg (.exn e1) w' := by
+  simp only [Inv] at h ⊢
+  intro hf
+  have hf' : flt w.trace = false := by rw [ht, flt_classify] at hf; exact hf
+  obtain ⟨h1, h2, h3⟩ := bv_of_excV cfg e0 w h hf'
+  have hs := classify_step_fields cfg (cur cfg w.trace) r (Ans.raise e1 d) ((clk w.trace).tick (Req.classify r, Ans.raise e1 d)).el
+  refine excV_of_raised cfg ht rfl ?_ ?_ ?_ hf
+  · rw [ht, cur_cons, hs.1]; exact h1
+  · rw [ht, cur_cons, hs.2.1]; exact h2
+  · rw [ht, cur_cons]; intro hg hm; rw [hs.2.2.2]; rw [hs.2.2.1] at hg; exact h3 hg hm
+
+theorem inv_classify_stuck (cfg : Cfg) (e0 : Exn) (w w' : World) (r : String) (a : Ans)
+    (ht : w'.trace = (Req.classify r, a) :: w.trace) (h : Inv cfg (.exn e0) w) :
+    Inv cfg (.exn .stuck) w' := by
+  simp only [Inv] at h ⊢
+  intro hf
+  have hf' : flt w.trace = false := by rw [ht, flt_classify] at hf; exact hf
+  obtain ⟨h1, h2, h3⟩ := bv_of_excV cfg e0 w h hf'
+  have hs := classify_step_fields cfg (cur cfg w.trace) r a ((clk w.trace).tick (Req.classify r, a)).el
+  rw [ht, cur_cons]
+  refine ⟨hs.1 ▸ h1, hs.2.1 ▸ h2, fun f hf => by simp at hf, fun _ _ hx => by simp at hx,
+    fun hg => ⟨fun hm => ?_, Or.inr (Or.inr fun f hf => by simp at hf)⟩⟩
+  rw [hs.2.2.2]; rw [hs.2.2.1] at hg; exact h3 hg hm
+
+/-- `classify_for_breaker` -/
+theorem callClassifier_p (cfg : Cfg) (e0 e' : Exn) (hex : e0.isExhausted = false) :
+    ⦃fun w => ⌜Inv cfg (.exn e0) w⌝⦄ callClassifier e' ⦃invPost cfg (.exn e0)⦄ := by
+  mvcgen [callClassifier, ask]
+  all_goals (try subst_vars)
+  all_goals first
+    | exact inv_classify_keep cfg e0 _ _ _ _ rfl hex (by assumption)
+    | exact inv_classify_raise cfg e0 _ _ _ _ _ rfl (by assumption)
+    | exact inv_classify_stuck cfg e0 _ _ _ _ rfl (by assumption)
+
+
+/-! #### before the loop -/
+
+/-- requests made before the retry state exists -/
+def preR : Req → Bool
+  | .breakerAllow => true
+  | .metric ev .. => isBreakerEv ev
+  | .log ev .. => isBreakerEv ev
+  | _ => false
+
+theorem preR_polR (r : Req) (h : preR r = true) : polR r = true := by
+  cases r <;> simp_all [preR, polR]
+
+theorem preR_prelude (r : Req) (h : preR r = true) : isPrelude r = true := by
+  cases r <;> simp_all [preR, isPrelude]
+
+/-- nothing that concerns the monitor has happened yet -/
+def Pre0 (cfg : Cfg) (w : World) : Prop :=
+  cur cfg w.trace = {} ∧ clk w.trace = {} ∧ flt w.trace = false
+
+theorem clk_prelude (δ t : List (Req × Ans)) (hd : ∀ y ∈ δ, isPrelude y.1 = true) (h : clk t = {}) :
+    clk (δ ++ t) = {} := by
+  induction δ with
+  | nil => simpa using h
+  | cons x δ ih =>
+    have := ih (fun y hy => hd y (by simp [hy]))
+    simp [this, Clock.tick, hd x (by simp)]
+
+theorem pre0_grow (cfg : Cfg) (w w' : World) (δ : List (Req × Ans)) (ht : w'.trace = δ ++ w.trace)
+    (hd : ∀ y ∈ δ, preR y.1 = true) (h : Pre0 cfg w) : Pre0 cfg w' := by
+  have hp := pol_append cfg δ w.trace (fun y hy => preR_polR _ (hd y hy))
+  have hc := clk_prelude δ w.trace (fun y hy => preR_prelude _ (hd y hy)) h.2.1
+  exact ⟨by rw [ht, hp.1]; exact h.1, by rw [ht]; exact hc, by rw [ht, hp.2.1]; exact h.2.2⟩
+
+theorem bv_of_pre0 (cfg : Cfg) (w : World) (h : Pre0 cfg w) : Bv cfg w := by
+  intro _
+  rw [h.1]
+  exact ⟨rfl, rfl, fun hg => by simp at hg⟩
+
+/-- an exception raised before any attempt was made -/
+theorem inv_exn_of_pre0 (cfg : Cfg) (w : World) (e : Exn) (h : Pre0 cfg w) (hne : ∀ f, e ≠ .libExhausted f) :
+    Inv cfg (.exn e) w := by
+  intro _
+  rw [h.1]
+  exact ⟨rfl, rfl, fun f hf => absurd hf (hne f), fun h1 => by simp at h1, fun hg => by simp at hg⟩
+
+theorem inv_out_of_pre0 (cfg : Cfg) (w : World) (o : Outcome) (h : Pre0 cfg w) (hs : o.stop = none) :
+    Inv cfg (.out o) w := by
+  intro _
+  rw [h.1]
+  exact ⟨rfl, rfl, fun r hr => by simp [hs] at hr, fun h1 => by simp at h1, fun hg => by simp at hg⟩
+
+theorem pre_spec {α : Type} {x : M α} (cfg : Cfg)
+    (hx : ∀ w0, ⦃fun w => ⌜FootQ preR w0 w⌝⦄ x ⦃fqPost preR w0⦄) :
+    ⦃fun w => ⌜Pre0 cfg w⌝⦄ x ⦃post⟨fun _ w => ⌜Pre0 cfg w⌝, fun e w => ⌜Inv cfg (.exn e) w⌝⟩⦄ :=
+  pol_spec cfg preR preR_polR hx (Pre0 cfg)
+    (fun w w' δ ht hd _ h => pre0_grow cfg w w' δ ht hd h) (bv_of_pre0 cfg)
+
+theorem preR_metric (ev : Event) (h : ev.isCircuit = true) (t : Tags) : preR (.metric ev 0 0 t) = true := by
+  simpa [preR, isCircuit_eq] using h
+
+theorem preR_log (ev : Event) (h : ev.isCircuit = true) (t : Tags) : preR (.log ev 0 0 t none) = true := by
+  simpa [preR, isCircuit_eq] using h
+
+theorem initCtx_pre (cfg : Cfg) :
+    ⦃fun w => ⌜Pre0 cfg w⌝⦄ initCtx ⦃post⟨fun _ w => ⌜Pre0 cfg w⌝, fun e w => ⌜Inv cfg (.exn e) w⌝⟩⦄ :=
+  pre_spec cfg (fun w0 => initCtx_fq preR w0)
+
+theorem emitBreakerEvent_pre (cfg : Cfg) (ev : Option Event) (st : CState) (k : Option EClass)
+    (hev : ∀ ev', ev = some ev' → ev'.isCircuit = true) :
+    ⦃fun w => ⌜Pre0 cfg w⌝⦄ emitBreakerEvent cfg ev st k
+    ⦃post⟨fun _ w => ⌜Pre0 cfg w⌝, fun e w => ⌜Inv cfg (.exn e) w⌝⟩⦄ :=
+  pre_spec cfg (fun w0 => emitBreakerEvent_fq preR w0 cfg ev st k
+    (fun ev' h t => preR_metric ev' (hev ev' h) t) (fun ev' h t => preR_log ev' (hev ev' h) t))
+
+/-- `breaker.allow()` -/
+theorem breakerAllow_pre (cfg : Cfg) (bc : Breaker.Cfg) :
+    ⦃fun w => ⌜Pre0 cfg w⌝⦄ breakerAllow bc
+    ⦃post⟨fun d w => ⌜Pre0 cfg w ∧ ∀ ev', d.2.2 = some ev' → ev'.isCircuit = true⌝,
+          fun e w => ⌜Inv cfg (.exn e) w⌝⟩⦄ := by
+  mvcgen [breakerAllow]
+  rename_i s h
+  exact ⟨pre0_grow cfg s _ [_] rfl (by simp [preR]) h, fun ev' hev => Breaker.allow_ev bc s.breaker s.now ev' hev⟩
+
+
+/-! #### the wrappers -/
+
+theorem runCall_p (cfg : Cfg) :
+    ⦃fun w => ⌜Pre0 cfg w⌝⦄ runCall cfg ⦃invPost cfg .ret⦄ := by
+  apply triple_of_run
+  intro w hw
+  have := adequacy (runCall_spec cfg) w hw
+  split <;> simp_all
+  · exact retV_of_retOK cfg _ this
+  · exact excV_of_exc cfg _ _ this
+
+theorem runExecute_p (cfg : Cfg) :
+    ⦃fun w => ⌜Pre0 cfg w⌝⦄ runExecute cfg
+    ⦃post⟨fun o w => ⌜Inv cfg (.out o) w⌝, fun e w => ⌜Inv cfg (.exn e) w⌝⟩⦄ := by
+  apply triple_of_run
+  intro w hw
+  have := adequacy (runExecute_spec cfg) w hw
+  split <;> simp_all
+  · exact this
+  · exact excV_of_exc cfg _ _ this
+
+theorem checkBreaker_pre (cfg : Cfg) :
+    ⦃fun w => ⌜Pre0 cfg w⌝⦄ checkBreaker cfg
+    ⦃post⟨fun _ w => ⌜Pre0 cfg w⌝, fun e w => ⌜Inv cfg (.exn e) w⌝⟩⦄ := by
+  have h1 := breakerAllow_pre cfg
+  have h2 := fun ev st k hev => emitBreakerEvent_pre cfg ev st k hev
+  mvcgen [checkBreaker, h1, h2]
+  all_goals (clear h1 h2)
+  all_goals (try (simp_all; done))
+  all_goals (exact inv_exn_of_pre0 cfg _ _ (by assumption) (by simp))
+
+/-- `Policy.call` with a retry component -/
+theorem call_retry_spec (cfg : Cfg) (hret : cfg.hasRetry = true) :
+    ⦃fun w => ⌜Pre0 cfg w⌝⦄ Policy.call cfg ⦃invPost cfg .ret⦄ := by
+  have h1 := initCtx_pre cfg
+  have h2 := checkBreaker_pre cfg
+  have h3 := runCall_p cfg
+  have h4 := fun z => recordSuccess_p cfg z
+  have h5 := fun z => recordCancel_p cfg z
+  have h6 := fun z => ensureSettled_p cfg z
+  have h7 := fun z e => handleExhaustedCall_p cfg z e
+  have h8 := fun z k => recordFailure_p cfg z k
+  have h9 := fun e0 e' hex => callClassifier_p cfg e0 e' hex
+  unfold Policy.call callAdmitted
+  simp only [hret, if_true]
+  mvcgen [withFinally, callLadder, handleAbortCall, handleExceptionCall, classifyForBreaker,
+    h1, h2, h3, h4, h5, h6, h7, h8, h9]
+  all_goals (clear h1 h2 h3 h4 h5 h6 h7 h8 h9)
+  all_goals (try (simp_all; done))
+
+
+theorem policyOutcome_pre (cfg : Cfg) (ok : Bool) (value : Option Nat) (attempts : Nat)
+    (lc : Option EClass) (le : Option String) (cause : Option Cause) :
+    ⦃fun w => ⌜Pre0 cfg w⌝⦄ policyOutcome ok value none attempts lc le cause
+    ⦃post⟨fun o w => ⌜Inv cfg (.out o) w⌝, fun e w => ⌜Inv cfg (.exn e) w⌝⟩⦄ := by
+  mvcgen [policyOutcome, xElapsed]
+  exact inv_out_of_pre0 cfg _ _ (by assumption) rfl
+
+/-- `Policy.execute` with a retry component -/
+theorem execute_retry_spec (cfg : Cfg) (hret : cfg.hasRetry = true) :
+    ⦃fun w => ⌜Pre0 cfg w⌝⦄ Policy.execute cfg
+    ⦃post⟨fun o w => ⌜Inv cfg (.out o) w⌝, fun e w => ⌜Inv cfg (.exn e) w⌝⟩⦄ := by
+  have h1 := initCtx_pre cfg
+  have h2 := breakerAllow_pre cfg
+  have h2' := fun ev st k hev => emitBreakerEvent_pre cfg ev st k hev
+  have h3 := runExecute_p cfg
+  have h4 := fun z => recordSuccess_p cfg z
+  have h5 := fun z => recordCancel_p cfg z
+  have h6 := fun z => ensureSettled_p cfg z
+  have h7 := fun z e => handleExhaustedCall_p cfg z e
+  have h8 := fun z k => recordFailure_p cfg z k
+  have h9 := fun e0 e' hex => callClassifier_p cfg e0 e' hex
+  have h10 := fun ok v a lc le c => policyOutcome_pre cfg ok v a lc le c
+  unfold Policy.execute executeAdmitted executeAdmitted2
+  simp only [hret, if_true]
+  mvcgen [withFinally, executeWithRetry, executeLadder, handleExceptionCall, classifyForBreaker,
+    h1, h2, h2', h3, h4, h5, h6, h7, h8, h9, h10]
+  all_goals (clear h1 h2 h2' h3 h4 h5 h6 h7 h8 h9 h10)
+  all_goals (try (simp_all; done))
+
+
+/-! ### the theorems -/
+
+/-- the monitor's verdict on a result, in terms of the fold state -/
+def verdict (cfg : Cfg) (t : Trace) (s : St) (r : Res) : Bool :=
+  !s.bad && stopSound cfg t s r && !s.mustOp && giveUpOk cfg t s r && grantOk cfg t s r
+
+theorem ok_eq (cfg : Cfg) (e : Entry) (tr : List (Req × Ans)) (r : Res) :
+    Mon.C03.ok cfg e tr.reverse r =
+      if hasLoop cfg e && !flt tr then verdict cfg tr.reverse (cur cfg tr) r else true := by
+  simp only [Mon.C03.ok, verdict, run_reverse, fault_reverse]
+
+theorem verdict_ret (cfg : Cfg) (w : World) (v : Nat) (h : RetV cfg w) (hf : flt w.trace = false) :
+    verdict cfg w.trace.reverse (cur cfg w.trace) (.ret v) = true := by
+  obtain ⟨h1, h2, h3, h4⟩ := h hf
+  simp only [verdict, stopSound, stopOf, giveUpOk, grantOk, h1, h2, h4]
+  by_cases ho : (cur cfg w.trace).ops = 0
+  · simp [ho]
+  · have := h3 (by omega)
+    simp [this]
+
+theorem stopOf_cases (t : Trace) (e : Exn) :
+    stopOf t (.raised e) = none ∨
+    ∃ f, e = .libExhausted f ∧ raisedBy (fun _ => true) t e = false ∧ stopOf t (.raised e) = some f.stop := by
+  cases e <;> simp [stopOf]
+
+theorem verdict_exn (cfg : Cfg) (w : World) (e : Exn) (h : ExcV cfg e w) (hf : flt w.trace = false) :
+    verdict cfg w.trace.reverse (cur cfg w.trace) (.raised e) = true := by
+  have hc := h hf
+  have hstop : stopSound cfg w.trace.reverse (cur cfg w.trace) (.raised e) = true := by
+    rcases stopOf_cases w.trace.reverse e with h | ⟨f, he, hnr, hs⟩
+    · simp [stopSound, h]
+    · simp only [stopSound, hs, elapsedOf_reverse]
+      rw [raisedBy_reverse] at hnr
+      rcases hc.stop f he with h | h
+      · rw [h] at hnr; cases hnr
+      · exact h
+  have hgive : giveUpOk cfg w.trace.reverse (cur cfg w.trace) (.raised e) = true := by
+    simp only [giveUpOk, raisedBy_reverse, elapsedOf_reverse]
+    by_cases h0 : ((cur cfg w.trace).ops == 0 || (cur cfg w.trace).done) = true
+    · simp [h0]
+    · by_cases hx : (!e.isException || e.isAbort || e.isExhausted) = true
+      · simp [hx]
+      · simp only [h0, hx, Bool.false_eq_true, if_false]
+        simp only [Bool.or_eq_true, beq_iff_eq, not_or, Bool.not_eq_true] at h0
+        simp only [Bool.or_eq_true, Bool.not_eq_eq_eq_not, Bool.not_true, not_or, Bool.not_eq_true,
+          Bool.not_eq_false] at hx
+        rcases hc.give (by omega) h0.2 hx.1.1 hx.1.2 hx.2 with g | g | g
+        · simp [g]
+        · simp [g.1, g.2]
+        · simp [g.1, g.2.1, g.2.2]
+  have hgrant : grantOk cfg w.trace.reverse (cur cfg w.trace) (.raised e) = true := by
+    simp only [grantOk]
+    by_cases hg : (cur cfg w.trace).granted = true
+    · obtain ⟨g1, g2⟩ := hc.grant hg
+      have g1' : (!cfg.metric || (cur cfg w.trace).retryEv) = true := by
+        cases hm : cfg.metric <;> simp_all
+      simp only [hg, Bool.not_true, Bool.false_or, g1', Bool.true_and]
+      rcases g2 with g | g | g
+      · simp [g]
+      · simp [g]
+      · rcases stopOf_cases w.trace.reverse e with h | ⟨f, he, hnr, hs⟩
+        · simp [h]
+        · rw [raisedBy_reverse] at hnr
+          rcases g f he with g | g
+          · rw [g] at hnr; cases hnr
+          · simp [hs, g]
+    · simp [hg]
+  simp [verdict, hc.bad, hc.must, hstop, hgive, hgrant]
+
+theorem verdict_out (cfg : Cfg) (w : World) (o : Outcome) (tl : List TimelineEv) (h : OutOK cfg o w)
+    (hf : flt w.trace = false) :
+    verdict cfg w.trace.reverse (cur cfg w.trace) (.outcome o tl) = true := by
+  have hc := h hf
+  have hstop : stopSound cfg w.trace.reverse (cur cfg w.trace) (.outcome o tl) = true := by
+    simp only [stopSound, stopOf, elapsedOf_reverse]
+    cases hs : o.stop with
+    | none => rfl
+    | some r => exact hc.stop r hs
+  have hgive : giveUpOk cfg w.trace.reverse (cur cfg w.trace) (.outcome o tl) = true := by
+    simp only [giveUpOk]
+    by_cases h0 : ((cur cfg w.trace).ops == 0 || (cur cfg w.trace).done) = true
+    · simp [h0]
+    · simp only [h0, Bool.false_eq_true, if_false]
+      simp only [Bool.or_eq_true, beq_iff_eq, not_or, Bool.not_eq_true] at h0
+      obtain ⟨g1, g2⟩ := hc.give (by omega) h0.2
+      simp [g1, g2]
+  have hgrant : grantOk cfg w.trace.reverse (cur cfg w.trace) (.outcome o tl) = true := by
+    simp only [grantOk, stopOf]
+    by_cases hg : (cur cfg w.trace).granted = true
+    · obtain ⟨g1, g2⟩ := hc.grant hg
+      have g1' : (!cfg.metric || (cur cfg w.trace).retryEv) = true := by
+        cases hm : cfg.metric <;> simp_all
+      simp only [hg, Bool.not_true, Bool.false_or, g1', Bool.true_and]
+      rcases g2 with g | g | g | g <;> simp [g]
+    · simp [hg]
+  simp [verdict, hc.bad, hc.must, hstop, hgive, hgrant]
+
+
+/-- the world `runEntry` starts a call from -/
+def startWorld (w : World) : World := { w with trace := [], timeline := [], opCalls := 0 }
+
+theorem pre0_start (cfg : Cfg) (w : World) : Pre0 cfg (startWorld w) := ⟨rfl, rfl, rfl⟩
+
+theorem ok_of_inv (cfg : Cfg) (e : Entry) (w : World) (z : Rz) (r : Res) (h : Inv cfg z w)
+    (hr : match z with
+      | .ret => ∃ v, r = .ret v
+      | .exn x => r = .raised x
+      | .out o => ∃ tl, r = .outcome o tl) :
+    Mon.C03.ok cfg e w.trace.reverse r = true := by
+  rw [ok_eq]
+  split
+  · rename_i hg
+    have hf : flt w.trace = false := by
+      have := (Bool.and_eq_true _ _ ▸ hg).2
+      simpa using this
+    cases z with
+    | ret => obtain ⟨v, rfl⟩ := hr; exact verdict_ret cfg w v h hf
+    | exn x => subst hr; exact verdict_exn cfg w x h hf
+    | out o => obtain ⟨tl, rfl⟩ := hr; exact verdict_out cfg w o tl h hf
+  · rfl
+
+/--
+**C03.**  For every configuration, every entry point (`Retry`/`Policy` × `call`/`execute`) and every world
+— every answer stream, clock value and state of a shared budget or breaker — the run satisfies the
+"retry exactly when permitted" monitor (`Mon.C03.ok`; each clause is restated below).
+-/
+theorem permitted_holds (cfg : Cfg) (e : Entry) (w : World) :
+    Mon.C03.ok cfg e (runEntry cfg e w).2.trace.reverse (runEntry cfg e w).1 = true := by
+  cases e with
+  | call =>
+    have := adequacy (runCall_p cfg) (startWorld w) (pre0_start cfg w)
+    simp only [runEntry, startWorld] at this ⊢
+    split at this <;> rename_i heq <;> simp only [heq, toRes]
+    · exact ok_of_inv cfg _ _ .ret _ this ⟨_, rfl⟩
+    · exact ok_of_inv cfg _ _ (.exn _) _ this rfl
+  | execute =>
+    have := adequacy (runExecute_p cfg) (startWorld w) (pre0_start cfg w)
+    simp only [runEntry, startWorld] at this ⊢
+    split at this <;> rename_i heq <;> simp only [heq, toResO]
+    · exact ok_of_inv cfg _ _ (.out _) _ this ⟨_, rfl⟩
+    · exact ok_of_inv cfg _ _ (.exn _) _ this rfl
+  | pcall =>
+    cases hret : cfg.hasRetry with
+    | true =>
+      have := adequacy (call_retry_spec cfg hret) (startWorld w) (pre0_start cfg w)
+      simp only [runEntry, startWorld] at this ⊢
+      split at this <;> rename_i heq <;> simp only [heq, toRes]
+      · exact ok_of_inv cfg _ _ .ret _ this ⟨_, rfl⟩
+      · exact ok_of_inv cfg _ _ (.exn _) _ this rfl
+    | false => simp [Mon.C03.ok, hasLoop, hret, Entry.isPolicy]
+  | pexecute =>
+    cases hret : cfg.hasRetry with
+    | true =>
+      have := adequacy (execute_retry_spec cfg hret) (startWorld w) (pre0_start cfg w)
+      simp only [runEntry, startWorld] at this ⊢
+      split at this <;> rename_i heq <;> simp only [heq, toResO]
+      · exact ok_of_inv cfg _ _ (.out _) _ this ⟨_, rfl⟩
+      · exact ok_of_inv cfg _ _ (.exn _) _ this rfl
+    | false => simp [Mon.C03.ok, hasLoop, hret, Entry.isPolicy]
+
+/-- …and therefore of every call in every script of calls and clock advances on ONE policy object -/
+theorem permitted_holds_script (cfg : Cfg) : ∀ (steps : List Step) (w : World),
+    ∀ l ∈ (runScript cfg steps w).1, Mon.C03.ok cfg l.entry l.trace l.res = true := by
+  intro steps
+  induction steps with
+  | nil => intro w l hl; simp [runScript] at hl
+  | cons st rest ih =>
+    intro w l hl
+    cases st with
+    | advance d => exact ih _ l (by simpa [runScript] using hl)
+    | run e =>
+      simp only [runScript, List.mem_cons] at hl
+      rcases hl with rfl | hl
+      · exact permitted_holds cfg e w
+      · exact ih _ l hl
+
+/-! ### the clauses of the monitor, one by one
+
+The monitor's flag `bad` is sticky, so `permitted_holds` says of EVERY exchange of a run what the flag
+checks when that exchange is processed.  `at cfg t p x` = "`x` is the exchange that follows the prefix `p`
+of the log `t`". -/
+
+/-- one step of the monitor together with the loop's clock -/
+def stepP (cfg : Cfg) (acc : St × Clock) (x : Req × Ans) : St × Clock :=
+  (step cfg acc.1 x (acc.2.tick x).el, acc.2.tick x)
+
+theorem run_eq (cfg : Cfg) (t : Trace) : run cfg t = (t.foldl (stepP cfg) ({}, {})).1 := rfl
+
+theorem step_bad_mono (cfg : Cfg) (s : St) (x : Req × Ans) (el : Nat) (h : (step cfg s x el).bad = false) :
+    s.bad = false := by
+  obtain ⟨r, a⟩ := x
+  cases hb : s.bad with
+  | false => rfl
+  | true =>
+    exfalso
+    revert h
+    cases r with
+    | metric ev _ _ _ => cases ev <;> simp [step, hb]
+    | _ => simp [step, classify, hb] <;> (try (cases a <;> simp [hb])) <;> (try (split <;> simp [hb]))
+
+
+theorem foldl_bad_mono (cfg : Cfg) (q : Trace) (acc : St × Clock)
+    (h : (q.foldl (stepP cfg) acc).1.bad = false) : acc.1.bad = false := by
+  induction q generalizing acc with
+  | nil => exact h
+  | cons x q ih => exact step_bad_mono cfg _ x _ (ih (stepP cfg acc x) h)
+
+/-- if the monitor has not flagged at the end of the log, it did not flag when it processed the exchange `x`
+    that follows the prefix `p` -/
+theorem unflagged (cfg : Cfg) (p rest : Trace) (x : Req × Ans) (h : (run cfg (p ++ x :: rest)).bad = false) :
+    (step cfg (run cfg p) x (elapsedOf (p ++ [x]))).bad = false := by
+  simp only [run_eq, List.foldl_append, List.foldl_cons] at h
+  have := foldl_bad_mono cfg rest _ h
+  have hclk : ∀ (t : Trace) (acc : St × Clock), (t.foldl (stepP cfg) acc).2 = t.foldl Clock.tick acc.2 := by
+    intro t
+    induction t with
+    | nil => intro acc; rfl
+    | cons y t ih => intro acc; simp [List.foldl, ih, stepP]
+  simp only [stepP] at this
+  rw [hclk] at this
+  simpa [run_eq, elapsedOf, List.foldl_append] using this
+
+/-- the guards of the monitor: an entry point with a retry loop, and no attempt hook / abort predicate raised -/
+def Guarded (cfg : Cfg) (e : Entry) (t : Trace) : Prop := hasLoop cfg e = true ∧ attemptHookFault t = false
+
+theorem clauses (cfg : Cfg) (e : Entry) (w : World)
+    (hg : Guarded cfg e (runEntry cfg e w).2.trace.reverse) :
+    let t := (runEntry cfg e w).2.trace.reverse
+    let r := (runEntry cfg e w).1
+    (run cfg t).bad = false ∧ stopSound cfg t (run cfg t) r = true ∧ (run cfg t).mustOp = false ∧
+      giveUpOk cfg t (run cfg t) r = true ∧ grantOk cfg t (run cfg t) r = true := by
+  have h := permitted_holds cfg e w
+  simp only [Mon.C03.ok, hg.1, hg.2, Bool.not_false, Bool.and_self, if_true, Bool.and_eq_true,
+    Bool.not_eq_true'] at h
+  exact ⟨h.1.1.1.1, h.1.1.1.2, h.1.1.2, h.1.2, h.2⟩
+
+section conjuncts
+variable (cfg : Cfg) (e : Entry) (w : World)
+  (hg : Guarded cfg e (runEntry cfg e w).2.trace.reverse)
+  (p rest : Trace) (x : Req × Ans) (ht : (runEntry cfg e w).2.trace.reverse = p ++ x :: rest)
+include hg ht
+
+/-- **A successful attempt ends the run at once**: once a success is confirmed (the operation returned and
+    the result classifier, if any, accepted the value) the operation is not invoked again, no strategy is
+    asked, no budget token spent, no `retry` reported, no sleep requested. -/
+theorem success_ends_run
+    (hx : isOp x.1 = true ∨ isSleeper x.1 = true ∨ (∃ g, x = (.budgetConsume, .granted g)) ∨
+          (∃ k kd c, x.1 = .strategy k kd c) ∨ (∃ a s tg, x.1 = .metric .retry a s tg)) :
+    (run cfg p).done = false := by
+  have hb := (clauses cfg e w hg).1
+  rw [ht] at hb
+  have := unflagged cfg p rest x hb
+  obtain ⟨r, a⟩ := x
+  rcases hx with h | h | ⟨g, h⟩ | ⟨k, kd, c, h⟩ | ⟨a', s', tg, h⟩
+  · cases r <;> simp_all [isOp, step]
+    cases a <;> simp_all
+  · cases r <;> simp_all [isSleeper, step]
+  · cases h; simp_all [step]
+  · subst h; simp_all [step]
+  · subst h; simp_all [step]
+
+/-- **No wasted backoff** (the F1 regression theorem): after the last permitted attempt — `max_attempts`
+    invocations of the operation — no strategy is asked, no budget token is spent, no `retry` event is
+    reported and no sleep is requested. -/
+theorem no_backoff_after_last
+    (hx : isSleeper x.1 = true ∨ (∃ g, x = (.budgetConsume, .granted g)) ∨
+          (∃ k kd c, x.1 = .strategy k kd c) ∨ (∃ a s tg, x.1 = .metric .retry a s tg)) :
+    (run cfg p).ops < cfg.maxAttempts := by
+  have hb := (clauses cfg e w hg).1
+  rw [ht] at hb
+  have := unflagged cfg p rest x hb
+  obtain ⟨r, a⟩ := x
+  rcases hx with h | ⟨g, h⟩ | ⟨k, kd, c, h⟩ | ⟨a', s', tg, h⟩
+  · cases r <;> simp_all [isSleeper, step]
+  · cases h; simp_all [step]
+  · subst h; simp_all [step]
+  · subst h; simp_all [step]
+
+/-- **Sleep only if permitted**: a backoff sleep is requested only after, within the same attempt, the
+    strategy was asked, the budget (if configured) granted a token, the `retry` event was reported (if a
+    metric hook is configured), the abort predicate (if configured) answered False after the grant, and the
+    sleep handler (if configured) said SLEEP; and at most once per attempt. -/
+theorem sleep_only_if_permitted (hx : isSleeper x.1 = true) :
+    (run cfg p).strat = true ∧ (cfg.budget.isSome = true → (run cfg p).granted = true) ∧
+    (cfg.metric = true → (run cfg p).retryEv = true) ∧ (cfg.abortIf = true → (run cfg p).pollFalse = true) ∧
+    (cfg.handler.isSome = true → (run cfg p).decision = some .sleep) ∧ (run cfg p).slept = false := by
+  have hb := (clauses cfg e w hg).1
+  rw [ht] at hb
+  have := unflagged cfg p rest x hb
+  obtain ⟨r, a⟩ := x
+  cases r <;> simp_all [isSleeper, step]
+
+/-- **The next attempt only after a sleep**: every invocation of the operation but the first follows a
+    backoff sleep requested in the attempt before. -/
+theorem next_attempt_only_after_sleep (hx : isOp x.1 = true) (h1 : 1 ≤ (run cfg p).ops) :
+    (run cfg p).slept = true := by
+  have hb := (clauses cfg e w hg).1
+  rw [ht] at hb
+  have := unflagged cfg p rest x hb
+  obtain ⟨r, a⟩ := x
+  cases r <;> simp_all [isOp, step]
+  cases a <;> simp_all
+
+/-- **The budget is consulted at most once per attempt, after the strategy** (C10, policy level). -/
+theorem budget_once_after_strategy (hx : ∃ g, x = (.budgetConsume, .granted g)) :
+    (run cfg p).strat = true ∧ (run cfg p).granted = false ∧ (run cfg p).refused = false := by
+  have hb := (clauses cfg e w hg).1
+  rw [ht] at hb
+  have := unflagged cfg p rest x hb
+  obtain ⟨g, rfl⟩ := hx
+  simp_all [step]
+
+/-- **`retry` is reported only for a granted retry; `budget_exhausted` only after a refusal.** -/
+theorem retry_event_only_if_granted (hx : ∃ a s tg, x.1 = .metric .retry a s tg) :
+    (run cfg p).strat = true ∧ (cfg.budget.isSome = true → (run cfg p).granted = true) := by
+  have hb := (clauses cfg e w hg).1
+  rw [ht] at hb
+  have := unflagged cfg p rest x hb
+  obtain ⟨r, a⟩ := x
+  obtain ⟨a', s', tg, h⟩ := hx
+  subst h
+  simp_all [step]
+
+end conjuncts
+
+/-- **Each reported stop reason implies its condition** (`Mon.C03.stopCond`): MAX_ATTEMPTS_GLOBAL ⇒
+    `max_attempts` invocations were made; BUDGET_EXHAUSTED ⇒ the budget refused in the last attempt;
+    DEADLINE_EXCEEDED ⇒ the elapsed time reached the deadline; NON_RETRYABLE_CLASS / NO_STRATEGY /
+    MAX_ATTEMPTS_PER_CLASS / MAX_UNKNOWN_ATTEMPTS ⇒ the condition holds of the class of the last failure and
+    the number of failures of that class; ABORTED ⇒ an abort was requested; SCHEDULED ⇒ a handler said DEFER. -/
+theorem stop_reason_sound (cfg : Cfg) (e : Entry) (w : World)
+    (hg : Guarded cfg e (runEntry cfg e w).2.trace.reverse) (r : StopReason)
+    (hr : stopOf (runEntry cfg e w).2.trace.reverse (runEntry cfg e w).1 = some r) :
+    stopCond cfg (run cfg (runEntry cfg e w).2.trace.reverse)
+      (elapsedOf (runEntry cfg e w).2.trace.reverse) r = true := by
+  have := (clauses cfg e w hg).2.1
+  simpa [stopSound, hr] using this
+
+/-- **No premature give-up.**  (i) If the last backoff sleep returned with the deadline not passed and fewer
+    than `max_attempts` invocations made, the operation is invoked again (unless the loop-top poll answers
+    True).  (ii) A run that made an attempt and did not end in a confirmed success reports a stop reason, or
+    ends with an exception that is not an attempt failure or that a callback raised; `call()` re-raises the
+    operation's own exception only after the failure was classified and some stop condition holds. -/
+theorem no_premature_give_up (cfg : Cfg) (e : Entry) (w : World)
+    (hg : Guarded cfg e (runEntry cfg e w).2.trace.reverse) :
+    (run cfg (runEntry cfg e w).2.trace.reverse).mustOp = false ∧
+    giveUpOk cfg (runEntry cfg e w).2.trace.reverse (run cfg (runEntry cfg e w).2.trace.reverse)
+      (runEntry cfg e w).1 = true :=
+  ⟨(clauses cfg e w hg).2.2.1, (clauses cfg e w hg).2.2.2.1⟩
+
+/-- **No wasted token**: a token granted in the last attempt was reported and the backoff at least begun,
+    unless the run was aborted or ended with an exception. -/
+theorem token_not_wasted (cfg : Cfg) (e : Entry) (w : World)
+    (hg : Guarded cfg e (runEntry cfg e w).2.trace.reverse) :
+    grantOk cfg (runEntry cfg e w).2.trace.reverse (run cfg (runEntry cfg e w).2.trace.reverse)
+      (runEntry cfg e w).1 = true :=
+  (clauses cfg e w hg).2.2.2.2
+
+
+/-- the guards are satisfiable on a non-empty log (non-vacuity of the hypotheses above) -/
+example : Guarded {} .call [(.op 1, .raise (.ordinary 1 .transient) 0), (.classify "o1", .klass ⟨.transient, none⟩ 0)] :=
+  ⟨rfl, rfl⟩
 
 end Redress.Props.C03
